@@ -105,18 +105,23 @@ Proof. reflexivity. Qed.
 Lemma all_digits_app a b : all_digits (a ++ b) = all_digits a && all_digits b.
 Proof. apply forallb_app. Qed.
 
-Lemma Zdigits_fuel_spec f : forall n, (0 <= n < 2 ^ Z.of_nat f)%Z ->
-  all_digits (Zdigits_fuel f n) = true /\ digits_val (Zdigits_fuel f n) = n /\ Zdigits_fuel f n <> [].
+Lemma Zdigits_fuel_spec f : forall n, (0 <= n < 10 * 2 ^ Z.of_nat f)%Z ->
+  all_digits (Zdigits_fuel (S f) n) = true /\ digits_val (Zdigits_fuel (S f) n) = n
+  /\ Zdigits_fuel (S f) n <> [].
 Proof.
   induction f as [|f IH]; intros n Hn.
-  - cbn in Hn. lia.
-  - cbn [Zdigits_fuel]. destruct (Z.ltb_spec n 10) as [L|L].
+  - change (10 * 2 ^ Z.of_nat 0)%Z with 10%Z in Hn.
+    cbn [Zdigits_fuel]. destruct (Z.ltb_spec n 10) as [L|L]; [|lia].
+    destruct (digit_char_props n ltac:(lia)) as [D1 D2].
+    repeat split; [cbn; rewrite D1; reflexivity|rewrite digits_val_single; exact D2|discriminate].
+  - remember (S f) as f1. cbn [Zdigits_fuel]. subst f1. destruct (Z.ltb_spec n 10) as [L|L].
     + destruct (digit_char_props n ltac:(lia)) as [D1 D2].
       repeat split; [cbn; rewrite D1; reflexivity|rewrite digits_val_single; exact D2|discriminate].
-    + assert (Hq : (0 <= n / 10 < 2 ^ Z.of_nat f)%Z).
+    + assert (Hq : (0 <= n / 10 < 10 * 2 ^ Z.of_nat f)%Z).
       { split; [apply Z.div_pos; lia|].
         apply Z.div_lt_upper_bound; [lia|].
-        rewrite Nat2Z.inj_succ, Z.pow_succ_r in Hn by lia. lia. }
+        rewrite Nat2Z.inj_succ, Z.pow_succ_r in Hn by lia.
+        assert (0 < 2 ^ Z.of_nat f)%Z by (apply Z.pow_pos_nonneg; lia). lia. }
       destruct (IH _ Hq) as [A [B C]].
       destruct (digit_char_props (n mod 10) ltac:(apply Z.mod_pos_bound; lia)) as [D1 D2].
       repeat split.
@@ -130,9 +135,11 @@ Lemma Zdigits_spec n : (0 <= n)%Z ->
   all_digits (Zdigits n) = true /\ digits_val (Zdigits n) = n /\ Zdigits n <> [].
 Proof.
   intro H. unfold Zdigits. apply Zdigits_fuel_spec. split; [exact H|].
-  rewrite Nat2Z.inj_succ, Z2Nat.id by apply Z.log2_nonneg.
+  rewrite Z2Nat.id by apply Z.log2_nonneg.
   destruct (Z.eq_dec n 0) as [->|Hn]; [cbn; lia|].
-  apply Z.log2_spec. lia.
+  pose proof (Z.log2_spec n ltac:(lia)) as [_ L].
+  rewrite Z.pow_succ_r in L by apply Z.log2_nonneg.
+  assert (0 < 2 ^ Z.log2 n)%Z by (apply Z.pow_pos_nonneg; [lia|apply Z.log2_nonneg]). lia.
 Qed.
 
 Lemma parse_nat_text_nat_dec i : parse_nat_text (nat_dec i) = Some (Z.of_nat i).
@@ -154,3 +161,1835 @@ Proof.
   intros Hc H Hin. unfold all_digits in H. rewrite forallb_forall in H.
   rewrite (H c Hin) in Hc. discriminate.
 Qed.
+
+(* ========================================================================== *)
+(** * Part B: decimal text <-> numbers *)
+
+(* ---- trim_end ------------------------------------------------------------- *)
+Lemma drop_while_app f x y :
+  drop_while f (x ++ y) = match drop_while f x with [] => drop_while f y | r => r ++ y end.
+Proof.
+  induction x as [|a x IH]; [cbn; destruct (drop_while f y); reflexivity|].
+  cbn [app drop_while]. destruct (f a); [exact IH|reflexivity].
+Qed.
+
+Lemma trim_end_snoc_same c s : trim_end c (s ++ [c]) = trim_end c s.
+Proof. unfold trim_end. rewrite rev_app_distr. cbn. rewrite N.eqb_refl. reflexivity. Qed.
+
+Lemma trim_end_snoc_other c d s : d <> c -> trim_end c (s ++ [d]) = s ++ [d].
+Proof.
+  intro H. unfold trim_end. rewrite rev_app_distr. cbn.
+  destruct (N.eqb_spec c d) as [E|E]; [congruence|]. cbn. rewrite rev_involutive. reflexivity.
+Qed.
+
+Lemma trim_end_nil c : trim_end c [] = [].
+Proof. reflexivity. Qed.
+
+(* a character different from c protects everything before it *)
+Lemma trim_end_keep c a d b : d <> c -> trim_end c (a ++ d :: b) = a ++ d :: trim_end c b.
+Proof.
+  intro H. unfold trim_end. rewrite rev_app_distr. cbn [rev]. rewrite <- app_assoc. cbn [app].
+  rewrite drop_while_app.
+  destruct (drop_while (N.eqb c) (rev b)) as [|r rs] eqn:E.
+  - cbn [drop_while]. destruct (N.eqb_spec c d) as [E2|E2]; [congruence|].
+    cbn [rev]. rewrite rev_involutive. reflexivity.
+  - rewrite rev_app_distr. cbn [rev]. rewrite rev_involutive, <- app_assoc. reflexivity.
+Qed.
+
+Lemma trim_end_notin c s : ~ In c s -> trim_end c s = s.
+Proof.
+  induction s as [|x s IH] using rev_ind; intro H; [reflexivity|].
+  apply trim_end_snoc_other. intro E. apply H. apply in_or_app. right. left. exact E.
+Qed.
+
+(* trim_end splits off a block of c's; what remains does not end in c *)
+Lemma trim_end_spec c s : exists n, s = trim_end c s ++ repeat c n.
+Proof.
+  induction s as [|x s IH] using rev_ind; [exists O; reflexivity|].
+  destruct (N.eq_dec x c) as [->|E].
+  - rewrite trim_end_snoc_same. destruct IH as [n IH]. exists (S n).
+    rewrite IH at 1. rewrite <- app_assoc. f_equal.
+    change (repeat c n ++ [c] = c :: repeat c n). symmetry. apply repeat_cons.
+  - exists O. rewrite trim_end_snoc_other by exact E. cbn. rewrite app_nil_r. reflexivity.
+Qed.
+
+Lemma trim_end_incl c s x : In x (trim_end c s) -> In x s.
+Proof.
+  destruct (trim_end_spec c s) as [n E]. intro H. rewrite E. apply in_or_app. left. exact H.
+Qed.
+
+(* ---- parse_unsigned_dec on digit strings (any number type) ------------------ *)
+Section DecT.
+  Context {T : Type} {NT : Num T}.
+
+  Lemma dot_not_digit : is_ascii_digit c_dot = false. Proof. reflexivity. Qed.
+  Lemma minus_not_digit : is_ascii_digit c_minus = false. Proof. reflexivity. Qed.
+
+  Lemma pud_int (ip : str) : all_digits ip = true -> ip <> [] ->
+    @parse_unsigned_dec T NT ip = Some (nofdec (digits_val ip) 0).
+  Proof.
+    intros A Hne. unfold parse_unsigned_dec.
+    rewrite split_on_nosep by (apply all_digits_no; [reflexivity|exact A]).
+    rewrite A. destruct ip; [contradiction|reflexivity].
+  Qed.
+
+  Lemma pud_frac (ip fp : str) : all_digits ip = true -> all_digits fp = true -> ip <> [] ->
+    @parse_unsigned_dec T NT (ip ++ c_dot :: fp)
+    = Some (nofdec (digits_val (ip ++ fp)) (- Z.of_nat (length fp))).
+  Proof.
+    intros A B Hne. unfold parse_unsigned_dec.
+    rewrite split_on_sep by (apply all_digits_no; [reflexivity|exact A]).
+    rewrite split_on_nosep by (apply all_digits_no; [reflexivity|exact B]).
+    rewrite A, B. destruct ip; [contradiction|reflexivity].
+  Qed.
+
+  Lemma parse_dec_unsigned (s : str) : (forall t, s <> c_minus :: t) -> s <> [] ->
+    @parse_dec T NT s = parse_unsigned_dec s.
+  Proof.
+    intros H Hne. destruct s as [|c s]; [contradiction|].
+    cbn [parse_dec]. destruct (N.eqb_spec c c_minus) as [->|E]; [exfalso; exact (H s eq_refl)|reflexivity].
+  Qed.
+
+  Lemma parse_dec_minus (s : str) : @parse_dec T NT (c_minus :: s) = option_map nneg (parse_unsigned_dec s).
+  Proof. reflexivity. Qed.
+
+  Lemma pud_nil : @parse_unsigned_dec T NT [] = None.
+  Proof. reflexivity. Qed.
+End DecT.
+
+Lemma body_ok_not_minus s t : body_ok s = true -> s <> c_minus :: t.
+Proof. intros H E. subst s. cbn in H. discriminate. Qed.
+
+Lemma body_ok_app a b : body_ok (a ++ b) = body_ok a && body_ok b.
+Proof. apply forallb_app. Qed.
+Lemma body_ok_cons_dot s : body_ok (c_dot :: s) = body_ok s.
+Proof. reflexivity. Qed.
+
+(* ---- dec_point ---------------------------------------------------------------- *)
+Lemma all_digits_repeat_zero k : all_digits (repeat c_zero k) = true.
+Proof. induction k; [reflexivity|exact IHk]. Qed.
+
+Lemma digits_val_repeat_zero k : digits_val (repeat c_zero k) = 0%Z.
+Proof.
+  induction k as [|k IH]; [reflexivity|].
+  change (repeat c_zero (S k)) with ([c_zero] ++ repeat c_zero k).
+  rewrite digits_val_app, IH. cbn. lia.
+Qed.
+
+Lemma pad_zeros_spec k s : all_digits s = true ->
+  all_digits (pad_zeros k s) = true /\ digits_val (pad_zeros k s) = digits_val s
+  /\ (k <= length (pad_zeros k s))%nat /\ (length s <= length (pad_zeros k s))%nat.
+Proof.
+  intro A. unfold pad_zeros. repeat split.
+  - rewrite all_digits_app, all_digits_repeat_zero, A. reflexivity.
+  - rewrite digits_val_app, digits_val_repeat_zero. lia.
+  - rewrite app_length, repeat_length. lia.
+  - rewrite app_length, repeat_length. lia.
+Qed.
+
+Lemma all_digits_firstn k s : all_digits s = true -> all_digits (firstn k s) = true.
+Proof.
+  unfold all_digits. rewrite !forallb_forall. intros H c Hc. apply H.
+  rewrite <- (firstn_skipn k s). apply in_or_app. left. exact Hc.
+Qed.
+Lemma all_digits_skipn k s : all_digits s = true -> all_digits (skipn k s) = true.
+Proof.
+  unfold all_digits. rewrite !forallb_forall. intros H c Hc. apply H.
+  rewrite <- (firstn_skipn k s). apply in_or_app. right. exact Hc.
+Qed.
+
+(* the shape of dec_point: integral digits, then (for p > 0) a dot and exactly p fractional digits *)
+Lemma dec_point_spec p n : (0 <= n)%Z ->
+  exists ip fp, dec_point p n = ip ++ (match p with O => [] | _ => c_dot :: fp end)
+    /\ all_digits ip = true /\ all_digits fp = true /\ ip <> [] /\ length fp = p
+    /\ digits_val (ip ++ fp) = n.
+Proof.
+  intro Hn. destruct (Zdigits_spec n Hn) as [A [B C]].
+  destruct (pad_zeros_spec (S p) (Zdigits n) A) as [PA [PB [PC PD]]].
+  unfold dec_point. set (ds := pad_zeros (S p) (Zdigits n)) in *.
+  destruct p as [|p].
+  - exists ds, []. rewrite app_nil_r. repeat split; try assumption; try reflexivity.
+    + intro E. rewrite E in PC. cbn in PC. lia.
+    + rewrite PB. exact B.
+  - set (k := (length ds - S p)%nat).
+    exists (firstn k ds), (skipn k ds). split; [reflexivity|]. repeat split.
+    + apply all_digits_firstn. exact PA.
+    + apply all_digits_skipn. exact PA.
+    + intro E. apply (f_equal (@length N)) in E. rewrite firstn_length in E. cbn [length] in E. unfold k in E. lia.
+    + rewrite skipn_length. unfold k. lia.
+    + rewrite firstn_skipn, PB. exact B.
+Qed.
+
+(* ---- value of a printed decimal, in R ---------------------------------------- *)
+Local Open Scope R_scope.
+
+Lemma nofdec_R m e : @nofdec R RNum m e = IZR m * powerRZ 10 e.
+Proof. reflexivity. Qed.
+
+Lemma ten_neq0 : 10 <> 0. Proof. lra. Qed.
+
+Lemma powerRZ_10_pos e : 0 < powerRZ 10 e.
+Proof. apply powerRZ_lt. lra. Qed.
+
+Lemma powerRZ_neg_nat k : powerRZ 10 (- Z.of_nat k) = / 10 ^ k.
+Proof. rewrite powerRZ_neg', <- pow_powerRZ. reflexivity. Qed.
+
+Lemma pow10_pos k : 0 < 10 ^ k.
+Proof. apply pow_lt. lra. Qed.
+
+Lemma IZR_pow10 k : IZR (10 ^ Z.of_nat k) = 10 ^ k.
+Proof. rewrite <- pow_IZR. reflexivity. Qed.
+
+(* value of "ip.fp" whatever the number of trailing zeros of fp *)
+Lemma digits_val_trailing_zeros s z :
+  digits_val (s ++ repeat c_zero z) = (digits_val s * 10 ^ Z.of_nat z)%Z.
+Proof. rewrite digits_val_app, digits_val_repeat_zero, repeat_length. lia. Qed.
+
+Lemma dec_value_trim (ip fp' : str) z :
+  IZR (digits_val (ip ++ fp' ++ repeat c_zero z)) * powerRZ 10 (- Z.of_nat (length (fp' ++ repeat c_zero z)))
+  = IZR (digits_val (ip ++ fp')) * powerRZ 10 (- Z.of_nat (length fp')).
+Proof.
+  rewrite app_assoc, digits_val_trailing_zeros, app_length, repeat_length.
+  rewrite mult_IZR, IZR_pow10, !powerRZ_neg_nat, pow_add.
+  pose proof (pow10_pos z). pose proof (pow10_pos (length fp')). field. split; lra.
+Qed.
+
+(* trimming: the text after trim_num, its shape, and its value *)
+Lemma trim_num_dec_point p n : (0 <= n)%Z ->
+  body_ok (trim_num (dec_point p n)) = true
+  /\ @parse_dec R RNum (trim_num (dec_point p n)) = Some (IZR n * / 10 ^ p)
+  /\ body_ok (dec_point p n) = true
+  /\ @parse_dec R RNum (dec_point p n) = Some (IZR n * / 10 ^ p).
+Proof.
+  intro Hn. destruct (dec_point_spec p n Hn) as [ip [fp [E [A [B [Hne [L V]]]]]]].
+  assert (NoDotI : ~ In c_dot ip) by (apply all_digits_no; [reflexivity|exact A]).
+  destruct p as [|p].
+  - (* no dot: nothing is trimmed *)
+    rewrite app_nil_r in E. destruct fp; [|discriminate]. rewrite app_nil_r in V.
+    assert (Etrim : trim_num (dec_point 0 n) = ip).
+    { unfold trim_num. rewrite E. unfold contains_char.
+      replace (existsb (N.eqb c_dot) ip) with false; [reflexivity|].
+      symmetry. apply not_true_is_false. intro H. apply existsb_exists in H.
+      destruct H as [x [Hx Hx2]]. apply N.eqb_eq in Hx2. subst x. contradiction. }
+    rewrite Etrim, E.
+    assert (P : @parse_dec R RNum ip = Some (IZR n * / 10 ^ 0)).
+    { rewrite parse_dec_unsigned; [|intros t; apply body_ok_not_minus, all_digits_body_ok, A|exact Hne].
+      rewrite pud_int by assumption. rewrite nofdec_R, V. cbn. f_equal. field. }
+    repeat split; try (apply all_digits_body_ok; exact A); exact P.
+  - (* ip . fp : trailing zeros of fp go, then the dot if nothing is left *)
+    assert (Hb : body_ok (ip ++ c_dot :: fp) = true).
+    { rewrite body_ok_app, (all_digits_body_ok _ A), body_ok_cons_dot, (all_digits_body_ok _ B). reflexivity. }
+    assert (Pfull : @parse_dec R RNum (ip ++ c_dot :: fp) = Some (IZR n * / 10 ^ S p)).
+    { rewrite parse_dec_unsigned; [|intros t; apply body_ok_not_minus; exact Hb
+                                   |intro X; apply app_eq_nil in X; destruct X; discriminate].
+      rewrite pud_frac by assumption. rewrite nofdec_R, V, L, powerRZ_neg_nat. reflexivity. }
+    rewrite E.
+    assert (Hc : contains_char c_dot (ip ++ c_dot :: fp) = true).
+    { unfold contains_char. apply existsb_exists. exists c_dot. split; [apply in_or_app; right; left; reflexivity|apply N.eqb_refl]. }
+    unfold trim_num. rewrite Hc.
+    rewrite (trim_end_keep c_zero ip c_dot fp) by discriminate.
+    destruct (trim_end_spec c_zero fp) as [z Ez].
+    set (fp' := trim_end c_zero fp) in *.
+    assert (B' : all_digits fp' = true).
+    { rewrite Ez, all_digits_app in B. apply andb_true_iff in B. tauto. }
+    assert (Val : IZR n * / 10 ^ S p = IZR (digits_val (ip ++ fp')) * powerRZ 10 (- Z.of_nat (length fp'))).
+    { rewrite <- V, <- L, <- powerRZ_neg_nat. rewrite Ez at 1 2. apply dec_value_trim. }
+    destruct fp' as [|d fp''] eqn:Efp.
+    + (* everything after the dot was zeros: "ip." -> "ip" *)
+      change (ip ++ [c_dot]) with (ip ++ [c_dot]).
+      rewrite trim_end_snoc_same, trim_end_notin by exact NoDotI.
+      repeat split; [apply all_digits_body_ok; exact A| |exact Hb|exact Pfull].
+      rewrite parse_dec_unsigned; [|intros t; apply body_ok_not_minus, all_digits_body_ok, A|exact Hne].
+      rewrite pud_int by assumption. rewrite nofdec_R, Val, app_nil_r. reflexivity.
+    + (* the last kept digit is not '0', hence not '.' either: the dot stays *)
+      assert (NoDotF : ~ In c_dot (d :: fp'')) by (apply all_digits_no; [reflexivity|exact B']).
+      replace (ip ++ c_dot :: d :: fp'') with ((ip ++ [c_dot]) ++ d :: fp'') by (rewrite <- app_assoc; reflexivity).
+      assert (Hd : d <> c_dot) by (intro X; apply NoDotF; left; exact X).
+      rewrite (trim_end_keep c_dot (ip ++ [c_dot]) d fp'' Hd).
+      rewrite trim_end_notin by (intro X; apply NoDotF; right; exact X).
+      rewrite <- app_assoc. cbn [app].
+      assert (Hb' : body_ok (ip ++ c_dot :: d :: fp'') = true).
+      { rewrite body_ok_app, (all_digits_body_ok _ A), body_ok_cons_dot, (all_digits_body_ok _ B'). reflexivity. }
+      repeat split; [exact Hb'| |exact Hb|exact Pfull].
+      rewrite parse_dec_unsigned; [|intros t; apply body_ok_not_minus; exact Hb'
+                                   |intro X; apply app_eq_nil in X; destruct X; discriminate].
+      rewrite pud_frac by assumption. rewrite nofdec_R, Val. reflexivity.
+Qed.
+
+(* the number-level precision statement: N = x*10^p rounded to within 1/2
+   ==> the printed (and trimmed) text reads back within 1/2 * 10^-p of x *)
+Lemma fmt_prec_number_level p n x : (0 <= n)%Z -> Rabs (IZR n - x * 10 ^ p) <= / 2 ->
+  exists y, @parse_dec R RNum (trim_num (dec_point p n)) = Some y
+         /\ @parse_dec R RNum (dec_point p n) = Some y
+         /\ Rabs (y - x) <= / 2 * / 10 ^ p.
+Proof.
+  intros Hn Hr. destruct (trim_num_dec_point p n Hn) as [_ [P1 [_ P2]]].
+  exists (IZR n * / 10 ^ p). repeat split; [exact P1|exact P2|].
+  pose proof (pow10_pos p) as Hp.
+  replace (IZR n * / 10 ^ p - x) with ((IZR n - x * 10 ^ p) * / 10 ^ p) by (field; lra).
+  rewrite Rabs_mult, (Rabs_right (/ 10 ^ p)) by (left; apply Rinv_0_lt_compat; exact Hp).
+  apply Rmult_le_compat_r; [left; apply Rinv_0_lt_compat; exact Hp|exact Hr].
+Qed.
+
+(* ========================================================================== *)
+(** * Part C: the executable `{:.p}` meets its rounding specification *)
+
+Lemma round_half_even_div_spec num den : (0 < den)%Z ->
+  let q := round_half_even_div num den in
+  (2 * Z.abs (q * den - num) <= den)%Z
+  /\ ((2 * Z.abs (q * den - num) = den)%Z -> Z.even q = true)
+  /\ ((0 <= num)%Z -> (0 <= q)%Z).
+Proof.
+  intros Hd q. unfold round_half_even_div in q.
+  pose proof (Z.div_mod num den ltac:(lia)) as DM.
+  pose proof (Z.mod_pos_bound num den Hd) as MB.
+  assert (Hq0 : (0 <= num -> 0 <= num / den)%Z) by (intro; apply Z.div_pos; lia).
+  subst q. set (qq := (num / den)%Z) in *. set (r := (num mod den)%Z) in *.
+  destruct (Z.compare_spec (2 * r) den) as [C|C|C].
+  - destruct (Z.even qq) eqn:Ev.
+    + split; [|split]; intros; try assumption; try nia.
+    + split; [|split]; intros; try nia. rewrite Z.even_add, Ev. reflexivity.
+  - split; [|split]; intros; try nia.
+  - split; [|split]; intros; try nia.
+Qed.
+
+Lemma IZR_pow2 (k : Z) : (0 <= k)%Z -> IZR (2 ^ k) = powerRZ 2 k.
+Proof.
+  intro H. rewrite <- (Z2Nat.id k H), <- pow_IZR, <- pow_powerRZ. reflexivity.
+Qed.
+
+Lemma scaled_round_spec m e p : (0 <= m)%Z ->
+  (0 <= scaled_round m e p)%Z
+  /\ Rabs (IZR (scaled_round m e p) - IZR m * powerRZ 2 e * 10 ^ p) <= / 2.
+Proof.
+  intro Hm. unfold scaled_round. destruct (Z.leb_spec 0 e) as [He|He].
+  - split; [apply Z.mul_nonneg_nonneg; [apply Z.mul_nonneg_nonneg|]; try lia; apply Z.pow_nonneg; lia|].
+    rewrite !mult_IZR, IZR_pow10, IZR_pow2 by exact He.
+    replace (IZR m * powerRZ 2 e * 10 ^ p - IZR m * powerRZ 2 e * 10 ^ p) with 0 by ring.
+    rewrite Rabs_R0. lra.
+  - set (den := (2 ^ (- e))%Z). set (num := (m * 10 ^ Z.of_nat p)%Z).
+    assert (Hd : (0 < den)%Z) by (apply Z.pow_pos_nonneg; lia).
+    destruct (round_half_even_div_spec num den Hd) as [S1 [_ S3]].
+    set (q := round_half_even_div num den) in *.
+    split; [apply S3; unfold num; apply Z.mul_nonneg_nonneg; [lia|apply Z.pow_nonneg; lia]|].
+    assert (Hden : IZR den = / powerRZ 2 e).
+    { unfold den. rewrite IZR_pow2 by lia. rewrite powerRZ_neg'. reflexivity. }
+    assert (P2 : 0 < powerRZ 2 e) by (apply powerRZ_lt; lra).
+    assert (Hnum : IZR m * powerRZ 2 e * 10 ^ p = IZR num * powerRZ 2 e).
+    { unfold num. rewrite mult_IZR, IZR_pow10. ring. }
+    rewrite Hnum.
+    replace (IZR q - IZR num * powerRZ 2 e) with (IZR (q * den - num) * powerRZ 2 e).
+    2:{ rewrite minus_IZR, mult_IZR, Hden. field. lra. }
+    rewrite Rabs_mult, (Rabs_right (powerRZ 2 e)) by lra.
+    rewrite <- abs_IZR.
+    assert (B : IZR (2 * Z.abs (q * den - num)) <= IZR den) by (apply IZR_le; exact S1).
+    rewrite mult_IZR, Hden in B.
+    apply Rmult_le_reg_r with (/ powerRZ 2 e); [apply Rinv_0_lt_compat; exact P2|].
+    rewrite Rmult_assoc, Rinv_r by lra. lra.
+Qed.
+
+(* ties go to the even neighbour *)
+Lemma scaled_round_half_even m e p : (0 <= m)%Z ->
+  Rabs (IZR (scaled_round m e p) - IZR m * powerRZ 2 e * 10 ^ p) = / 2 ->
+  Z.even (scaled_round m e p) = true.
+Proof.
+  intros Hm. unfold scaled_round. destruct (Z.leb_spec 0 e) as [He|He].
+  - rewrite !mult_IZR, IZR_pow10, IZR_pow2 by exact He.
+    replace (IZR m * powerRZ 2 e * 10 ^ p - IZR m * powerRZ 2 e * 10 ^ p) with 0 by ring.
+    rewrite Rabs_R0. lra.
+  - set (den := (2 ^ (- e))%Z). set (num := (m * 10 ^ Z.of_nat p)%Z).
+    assert (Hd : (0 < den)%Z) by (apply Z.pow_pos_nonneg; lia).
+    destruct (round_half_even_div_spec num den Hd) as [_ [S2 _]].
+    set (q := round_half_even_div num den) in *.
+    assert (Hden : IZR den = / powerRZ 2 e).
+    { unfold den. rewrite IZR_pow2 by lia. rewrite powerRZ_neg'. reflexivity. }
+    assert (P2 : 0 < powerRZ 2 e) by (apply powerRZ_lt; lra).
+    assert (Hnum : IZR m * powerRZ 2 e * 10 ^ p = IZR num * powerRZ 2 e).
+    { unfold num. rewrite mult_IZR, IZR_pow10. ring. }
+    rewrite Hnum.
+    replace (IZR q - IZR num * powerRZ 2 e) with (IZR (q * den - num) * powerRZ 2 e).
+    2:{ rewrite minus_IZR, mult_IZR, Hden. field. lra. }
+    rewrite Rabs_mult, (Rabs_right (powerRZ 2 e)) by lra.
+    rewrite <- abs_IZR. intro H. apply S2. apply eq_IZR.
+    rewrite mult_IZR, Hden.
+    apply Rmult_eq_reg_r with (powerRZ 2 e); [|lra].
+    rewrite Rinv_l by lra. lra.
+Qed.
+
+Lemma float_fmt_prec_finite p x s m e : Prim2SF x = S754_finite s m e ->
+  float_fmt_prec p x = sign_str s ++ dec_point p (scaled_round (Zpos m) e p).
+Proof. intro H. unfold float_fmt_prec. rewrite H. reflexivity. Qed.
+
+Lemma float_fmt_prec_zero p x s : Prim2SF x = S754_zero s ->
+  float_fmt_prec p x = sign_str s ++ dec_point p 0.
+Proof. intro H. unfold float_fmt_prec. rewrite H. reflexivity. Qed.
+
+(* C17, number level, about the function that is extracted and compared text-for-text with Rust
+   (float_fmt_prec p x = sf_fmt_prec p (Prim2SF x) by definition):
+   `{:.p}` of the finite binary64 value (-1)^s * m * 2^e prints sign and digits of an integer n within
+   1/2 of m*2^e*10^p (ties to even), and that text -- trimmed or not -- reads back within 1/2*10^-p. *)
+Lemma c17_fmt_prec_exact : forall (p : nat) (s : bool) (m : positive) (e : Z),
+  exists (n : Z) (y : R),
+    sf_fmt_prec p (S754_finite s m e) = sign_str s ++ dec_point p n
+    /\ (0 <= n)%Z
+    /\ Rabs (IZR n - IZR (Zpos m) * powerRZ 2 e * 10 ^ p) <= / 2
+    /\ (Rabs (IZR n - IZR (Zpos m) * powerRZ 2 e * 10 ^ p) = / 2 -> Z.even n = true)
+    /\ @parse_dec R RNum (dec_point p n) = Some y
+    /\ @parse_dec R RNum (trim_num (dec_point p n)) = Some y
+    /\ Rabs (y - IZR (Zpos m) * powerRZ 2 e) <= / 2 * / 10 ^ p.
+Proof.
+  intros p s m e.
+  destruct (scaled_round_spec (Zpos m) e p ltac:(lia)) as [N0 N1].
+  destruct (fmt_prec_number_level p _ _ N0 N1) as [y [Y1 [Y2 Y3]]].
+  exists (scaled_round (Zpos m) e p), y.
+  repeat split; try assumption.
+  apply scaled_round_half_even. lia.
+Qed.
+
+(* ========================================================================== *)
+(** * Part D: SimplePolynomial -- print, then parse_simple *)
+
+(* ---- character classes of the printed text ---------------------------------- *)
+Definition plainb (c : N) : bool :=
+  negb (is_whitespace c) && negb (N.eqb c c_minus) && negb (N.eqb c c_plus).
+Definition plain (s : str) : bool := forallb plainb s.
+
+Lemma numch_facts c : numch c = true ->
+  plainb c = true /\ c <> c_caret /\ is_ascii_letter c = false.
+Proof.
+  intro H. pose proof (numch_lt128 c H) as L.
+  pose proof (below128 (fun c => implb (numch c)
+     (plainb c && negb (N.eqb c c_caret) && negb (is_ascii_letter c))) ltac:(vm_compute; reflexivity) c L) as B.
+  cbv beta in B. rewrite H in B. cbn [implb] in B.
+  apply andb_true_iff in B. destruct B as [B B3]. apply andb_true_iff in B. destruct B as [B1 B2].
+  repeat split; [exact B1| |apply negb_true_iff; exact B3].
+  intro E. subst c. discriminate.
+Qed.
+
+Lemma letter_facts c : (c < 128)%N -> is_ascii_letter c = true ->
+  numch c = false /\ c <> c_plus /\ c <> c_minus /\ c <> c_caret /\ is_ascii_digit c = false.
+Proof.
+  intros L H.
+  pose proof (below128 (fun c => implb (is_ascii_letter c)
+     (negb (numch c) && negb (N.eqb c c_plus) && negb (N.eqb c c_minus) && negb (N.eqb c c_caret)
+      && negb (is_ascii_digit c))) ltac:(vm_compute; reflexivity) c L) as B.
+  cbv beta in B. rewrite H in B. cbn [implb] in B.
+  repeat (apply andb_true_iff in B; let X := fresh "B" in destruct B as [B X]).
+  repeat split; try (apply negb_true_iff; assumption);
+    intro E; subst c; discriminate.
+Qed.
+
+Lemma strip_ws_app a b : strip_ws (a ++ b) = strip_ws a ++ strip_ws b.
+Proof. apply filter_app. Qed.
+Lemma m2pm_app a b : minus_to_plusminus (a ++ b) = minus_to_plusminus a ++ minus_to_plusminus b.
+Proof. apply flat_map_app. Qed.
+
+Lemma plain_app a b : plain (a ++ b) = plain a && plain b.
+Proof. apply forallb_app. Qed.
+
+Lemma strip_ws_plain s : plain s = true -> strip_ws s = s.
+Proof.
+  induction s as [|c s IH]; intro H; [reflexivity|].
+  cbn in H. apply andb_true_iff in H. destruct H as [H1 H2].
+  unfold plainb in H1. apply andb_true_iff in H1. destruct H1 as [H1 _].
+  apply andb_true_iff in H1. destruct H1 as [H1 _].
+  cbn [strip_ws filter]. rewrite H1. f_equal. apply IH. exact H2.
+Qed.
+
+Lemma m2pm_plain s : plain s = true -> minus_to_plusminus s = s.
+Proof.
+  induction s as [|c s IH]; intro H; [reflexivity|].
+  cbn in H. apply andb_true_iff in H. destruct H as [H1 H2].
+  unfold plainb in H1. apply andb_true_iff in H1. destruct H1 as [H1 _].
+  apply andb_true_iff in H1. destruct H1 as [_ H1]. apply negb_true_iff in H1.
+  cbn [minus_to_plusminus flat_map]. rewrite H1. cbn [app]. f_equal. apply IH. exact H2.
+Qed.
+
+Lemma plain_no_plus s : plain s = true -> ~ In c_plus s.
+Proof.
+  intros H Hin. unfold plain in H. rewrite forallb_forall in H. specialize (H _ Hin).
+  vm_compute in H. discriminate.
+Qed.
+Lemma plain_no_minus s : plain s = true -> ~ In c_minus s.
+Proof.
+  intros H Hin. unfold plain in H. rewrite forallb_forall in H. specialize (H _ Hin).
+  vm_compute in H. discriminate.
+Qed.
+
+Lemma body_ok_plain s : body_ok s = true -> plain s = true.
+Proof.
+  unfold body_ok, plain. rewrite !forallb_forall. intros H c Hc.
+  apply numch_facts. apply H. exact Hc.
+Qed.
+
+Lemma skipn_S_app {A} (a : list A) x r : skipn (S (length a)) (a ++ x :: r) = r.
+Proof. induction a; cbn; [reflexivity|assumption]. Qed.
+
+Lemma mapM_ok {A B} (f : A -> res B) (g : A -> B) (l : list A) :
+  (forall x, In x l -> f x = Ok (g x)) -> mapM f l = Ok (map g l).
+Proof.
+  induction l as [|x l IH]; intro H; [reflexivity|].
+  cbn [mapM map]. rewrite (H x (or_introl eq_refl)). cbn [bind].
+  rewrite IH by (intros y Hy; apply H; right; exact Hy). reflexivity.
+Qed.
+
+Local Open Scope R_scope.
+
+(* ---- dense_coeffs ---------------------------------------------------------------- *)
+Fixpoint sumat (k : nat) (ts : list (R * nat)) : R :=
+  match ts with
+  | [] => 0
+  | t :: ts' => (if Nat.eqb (snd t) k then fst t else 0) + sumat k ts'
+  end.
+
+Lemma sumat_app k a b : sumat k (a ++ b) = sumat k a + sumat k b.
+Proof. induction a as [|t a IH]; cbn [app sumat]; [ring|]. rewrite IH. ring. Qed.
+Lemma sumat_rev k a : sumat k (rev a) = sumat k a.
+Proof.
+  induction a as [|t a IH]; [reflexivity|]. cbn [rev]. rewrite sumat_app, IH. cbn [sumat]. ring.
+Qed.
+
+Lemma add_at_length (cs : list R) : forall p c, length (add_at cs p c) = length cs.
+Proof. induction cs as [|x cs IH]; intros [|p] c; cbn; try reflexivity. rewrite IH. reflexivity. Qed.
+
+Lemma add_at_nth (cs : list R) : forall p c k, (p < length cs)%nat ->
+  nth k (add_at cs p c) 0 = nth k cs 0 + (if Nat.eqb p k then c else 0).
+Proof.
+  induction cs as [|x cs IH]; intros p c k Hp; [cbn in Hp; lia|].
+  destruct p as [|p]; destruct k as [|k]; cbn [add_at nth Nat.eqb nadd RNum]; try ring.
+  apply IH. cbn in Hp. lia.
+Qed.
+
+Lemma fold_add_at_nth (ts : list (R * nat)) : forall (cs : list R) k,
+  (forall t, In t ts -> (snd t < length cs)%nat) ->
+  nth k (fold_left (fun cs t => add_at cs (snd t) (fst t)) ts cs) 0 = nth k cs 0 + sumat k ts.
+Proof.
+  induction ts as [|t ts IH]; intros cs k H; cbn [fold_left sumat]; [ring|].
+  rewrite IH.
+  - rewrite add_at_nth by (apply H; left; reflexivity). ring.
+  - intros t' Ht'. rewrite add_at_length. apply H. right. exact Ht'.
+Qed.
+
+Lemma max_power_ge (ts : list (R * nat)) : forall m0 t, In t ts ->
+  (snd t <= fold_left (fun m t => Nat.max m (snd t)) ts m0)%nat.
+Proof.
+  induction ts as [|x ts IH]; intros m0 t Ht; [contradiction|].
+  cbn [fold_left]. destruct Ht as [->|Ht].
+  - clear IH. generalize (Nat.max m0 (snd t)) (Nat.le_max_r m0 (snd t)).
+    induction ts as [|y ts IH2]; intros m Hm; cbn [fold_left]; [exact Hm|].
+    apply IH2. lia.
+  - apply IH. exact Ht.
+Qed.
+
+Lemma max_power_le (ts : list (R * nat)) b : forall m0, (m0 <= b)%nat ->
+  (forall t, In t ts -> (snd t <= b)%nat) ->
+  (fold_left (fun m t => Nat.max m (snd t)) ts m0 <= b)%nat.
+Proof.
+  induction ts as [|x ts IH]; intros m0 H0 H; cbn [fold_left]; [exact H0|].
+  apply IH; [pose proof (H x (or_introl eq_refl)); lia|].
+  intros t Ht. apply H. right. exact Ht.
+Qed.
+
+Lemma nth_repeat0 k n : nth k (repeat 0 n) 0 = 0.
+Proof. revert k; induction n as [|n IH]; intros [|k]; cbn; try reflexivity. apply IH. Qed.
+
+Lemma dense_coeffs_nth (ts : list (R * nat)) k : nth k (dense_coeffs ts) 0 = sumat k ts.
+Proof.
+  unfold dense_coeffs. rewrite fold_add_at_nth.
+  - cbn [n0 RNum]. rewrite nth_repeat0. ring.
+  - intros t Ht. rewrite repeat_length. unfold max_power_of.
+    pose proof (max_power_ge ts O t Ht). lia.
+Qed.
+
+Lemma dense_coeffs_checked_ok (ts : list (R * nat)) :
+  (forall t, In t ts -> (Z.of_nat (snd t) <= 65535)%Z) -> dense_coeffs_checked ts = Ok (dense_coeffs ts).
+Proof.
+  intro H. unfold dense_coeffs_checked.
+  set (b := Z.to_nat 65535).
+  assert (Eb : Z.of_nat b = 65535%Z) by (unfold b; rewrite Z2Nat.id; lia).
+  assert (B : (max_power_of ts <= b)%nat).
+  { apply max_power_le; [lia|]. intros t Ht. specialize (H t Ht). lia. }
+  destruct (Z.leb_spec (2 ^ 64) (Z.of_nat (max_power_of ts) + 1)) as [L|L]; [exfalso; lia|].
+  destruct (Z.ltb_spec (2 ^ 63 - 1) ((Z.of_nat (max_power_of ts) + 1) * 8)) as [L2|L2]; [exfalso; lia|].
+  reflexivity.
+Qed.
+
+(* ---- the round trip, generic in the number formatter ------------------------------ *)
+Section SimpleRT.
+  Variable U : UClass.
+  Hypothesis U_ascii : forall c, (c < 128)%N -> u_alphabetic U c = is_ascii_letter c.
+  Variable fmt_prec : nat -> R -> str.
+  Variable fmt_short : R -> str.
+  Variable prec : option nat.
+  Variable rd : R -> R.              (* the value the printed magnitude reads back as *)
+  Variable var : N.
+  Hypothesis var_alpha : u_alphabetic U var = true.
+  Hypothesis var_nws : is_whitespace var = false.
+
+  Let fnum := fmt_num fmt_prec fmt_short prec.
+  Definition num_ok (a : R) : Prop :=
+    body_ok (fnum a) = true /\ @parse_dec R RNum (fnum a) = Some (rd a).
+
+  (* facts about the variable character *)
+  Lemma var_facts : numch var = false /\ var <> c_plus /\ var <> c_minus /\ var <> c_caret.
+  Proof.
+    destruct (N.ltb_spec var 128) as [L|L].
+    - pose proof (U_ascii var L) as E. rewrite var_alpha in E. symmetry in E.
+      destruct (letter_facts var L E) as [A [B [C [D _]]]]. repeat split; assumption.
+    - repeat split.
+      + apply not_true_is_false. intro H. apply numch_lt128 in H. lia.
+      + intro E. rewrite E in L. vm_compute in L. apply L. reflexivity.
+      + intro E. rewrite E in L. vm_compute in L. apply L. reflexivity.
+      + intro E. rewrite E in L. vm_compute in L. apply L. reflexivity.
+  Qed.
+
+  Lemma var_plainb : plainb var = true.
+  Proof.
+    destruct var_facts as [_ [B [C _]]]. unfold plainb. rewrite var_nws. cbn [negb andb].
+    destruct (N.eqb_spec var c_minus); [contradiction|]. destruct (N.eqb_spec var c_plus); [contradiction|].
+    reflexivity.
+  Qed.
+
+  Lemma body_ok_no_var s : body_ok s = true -> ~ In var s.
+  Proof.
+    intros H Hin. unfold body_ok in H. rewrite forallb_forall in H. specialize (H _ Hin).
+    destruct var_facts as [A _]. congruence.
+  Qed.
+
+  Lemma numch_not_alpha c : numch c = true -> u_alphabetic U c = false.
+  Proof.
+    intro H. rewrite U_ascii by (apply numch_lt128; exact H). apply numch_facts. exact H.
+  Qed.
+
+  (* the pieces of one printed term *)
+  Definition sgn_str (c : R) : str := if Rltb c 0 then [c_minus] else [].
+  Definition cs_of (i : nat) (c : R) : str :=
+    if nneb (nabs c) n1 || Nat.eqb i 0 then fnum (nabs c) else [].
+  Definition body_of (i : nat) (c : R) : str := cs_of i c ++ simple_var_part var i.
+  Definition nm (i : nat) (c : R) : str := sgn_str c ++ body_of i c.
+
+  Lemma nat_dec_digits i : all_digits (nat_dec i) = true /\ nat_dec i <> [].
+  Proof. destruct (Zdigits_spec (Z.of_nat i) ltac:(lia)) as [A [_ C]]. split; assumption. Qed.
+
+  Lemma var_part_plain i : plain (simple_var_part var i) = true.
+  Proof.
+    destruct i as [|[|i]]; cbn [simple_var_part]; [reflexivity|cbn; rewrite var_plainb; reflexivity|].
+    cbn [plain forallb]. rewrite var_plainb. cbn [andb].
+    change (forallb plainb (nat_dec (S (S i)))) with (plain (nat_dec (S (S i)))).
+    apply body_ok_plain, all_digits_body_ok, nat_dec_digits.
+  Qed.
+
+  Lemma cs_of_cases i c : num_ok (Rabs c) ->
+    (cs_of i c = [] /\ (nneb (nabs c) n1 || Nat.eqb i 0) = false)
+    \/ (cs_of i c = fnum (Rabs c) /\ (nneb (nabs c) n1 || Nat.eqb i 0) = true).
+  Proof.
+    intros _. unfold cs_of. destruct (nneb (nabs c) n1 || Nat.eqb i 0); [right|left]; split; reflexivity.
+  Qed.
+
+  Lemma cs_of_body_ok i c : num_ok (Rabs c) -> body_ok (cs_of i c) = true.
+  Proof.
+    intros [H _]. unfold cs_of. destruct (nneb (nabs c) n1 || Nat.eqb i 0); [exact H|reflexivity].
+  Qed.
+
+  Lemma body_of_plain i c : num_ok (Rabs c) -> plain (body_of i c) = true.
+  Proof.
+    intro H. unfold body_of. rewrite plain_app, (body_ok_plain _ (cs_of_body_ok i c H)), var_part_plain.
+    reflexivity.
+  Qed.
+  Lemma sgn_str_cases c : (sgn_str c = [] /\ Rltb c 0 = false) \/ (sgn_str c = [c_minus] /\ Rltb c 0 = true).
+  Proof. unfold sgn_str. destruct (Rltb c 0); [right|left]; split; reflexivity. Qed.
+
+  (* body is never empty: either the number is printed (parse_dec of "" fails) or the variable is *)
+  Lemma body_of_nonempty i c : num_ok (Rabs c) -> body_of i c <> [].
+  Proof.
+    intros [Hb Hp]. unfold body_of, cs_of. cbn [nabs RNum].
+    destruct (nneb (Rabs c) n1) eqn:E1; cbn [orb].
+    - destruct (fnum (Rabs c)); [discriminate Hp|discriminate].
+    - destruct i as [|[|i]]; cbn [Nat.eqb simple_var_part].
+      + destruct (fnum (Rabs c)); [discriminate Hp|discriminate].
+      + discriminate.
+      + discriminate.
+  Qed.
+
+  Lemma nm_no_plus i c : num_ok (Rabs c) -> ~ In c_plus (nm i c).
+  Proof.
+    intros H Hin. unfold nm in Hin. apply in_app_or in Hin. destruct Hin as [Hin|Hin].
+    - destruct (sgn_str_cases c) as [[E _]|[E _]]; rewrite E in Hin; [contradiction|].
+      destruct Hin as [X|[]]. discriminate X.
+    - exact (plain_no_plus _ (body_of_plain i c H) Hin).
+  Qed.
+
+  Lemma nm_not_bad i c : num_ok (Rabs c) -> bad_part (nm i c) = false.
+  Proof.
+    intro H. pose proof (body_of_nonempty i c H) as Hne.
+    pose proof (plain_no_minus _ (body_of_plain i c H)) as Hnm.
+    unfold nm. destruct (body_of i c) as [|b bs] eqn:E; [contradiction|].
+    destruct (sgn_str_cases c) as [[Es _]|[Es _]]; rewrite Es; cbn [app bad_part].
+    - destruct bs; [|reflexivity]. apply N.eqb_neq. intro X. apply Hnm. left. exact X.
+    - reflexivity.
+  Qed.
+
+  (* ---- the text after strip_ws / minus_to_plusminus ---- *)
+  Fixpoint normtext (its : list (nat * R)) (first : bool) : str :=
+    match its with
+    | [] => []
+    | (i, c) :: r =>
+        if Reqb c 0 then normtext r first
+        else (if first && Rltb 0 c then [] else [c_plus]) ++ nm i c ++ normtext r false
+    end.
+  Fixpoint partsof (its : list (nat * R)) : list str :=
+    match its with
+    | [] => []
+    | (i, c) :: r => if Reqb c 0 then partsof r else nm i c :: partsof r
+    end.
+  Definition all_ok (its : list (nat * R)) : Prop :=
+    forall i c, In (i, c) its -> c <> 0 -> num_ok (Rabs c).
+
+  Lemma all_ok_tail t its : all_ok (t :: its) -> all_ok its.
+  Proof. intros H i c Hin Hc. apply (H i c); [right; exact Hin|exact Hc]. Qed.
+
+  Notation sloop := (simple_loop fmt_prec fmt_short prec var).
+
+  Lemma sloop_cons i c rest first :
+    sloop ((i, c) :: rest) first =
+    if Reqb c 0 then sloop rest first
+    else ((if negb first && Rltb 0 c then sep_plus else if Rltb c 0 then sep_minus else [])
+          ++ cs_of i c ++ simple_var_part var i ++ fst (sloop rest false), snd (sloop rest false)).
+  Proof.
+    cbn [simple_loop]. cbn [neqb n0 RNum ngtb nltb]. destruct (Reqb c 0); [reflexivity|].
+    destruct (sloop rest false) as [r f]. reflexivity.
+  Qed.
+
+  Lemma loop_norm its : forall first, all_ok its ->
+    minus_to_plusminus (strip_ws (fst (sloop its first))) = normtext its first.
+  Proof.
+    induction its as [|[i c] its IH]; intros first Hok; [reflexivity|].
+    rewrite sloop_cons. cbn [normtext]. destruct (Reqb c 0) eqn:Ec.
+    - apply IH. exact (all_ok_tail _ _ Hok).
+    - cbn [fst].
+      assert (Hc : c <> 0) by (apply Reqb_false; exact Ec).
+      assert (Hn : num_ok (Rabs c)) by (apply (Hok i c); [left; reflexivity|exact Hc]).
+      rewrite !strip_ws_app, !m2pm_app.
+      rewrite (IH false (all_ok_tail _ _ Hok)).
+      rewrite (strip_ws_plain (cs_of i c)), (m2pm_plain (cs_of i c))
+        by (apply body_ok_plain, cs_of_body_ok; exact Hn).
+      rewrite (strip_ws_plain (simple_var_part var i)), (m2pm_plain (simple_var_part var i))
+        by apply var_part_plain.
+      unfold nm, body_of. rewrite <- !app_assoc.
+      destruct (Rltb c 0) eqn:Eneg.
+      + (* negative: " - " whatever `first` is *)
+        assert (E0 : Rltb 0 c = false).
+        { apply Rltb_false. apply Rltb_true in Eneg. lra. }
+        rewrite E0, !andb_false_r. unfold sgn_str. rewrite Eneg. reflexivity.
+      + assert (E0 : Rltb 0 c = true).
+        { apply Rltb_true. apply Rltb_false in Eneg. lra. }
+        rewrite E0, !andb_true_r. unfold sgn_str. rewrite Eneg.
+        destruct first; reflexivity.
+  Qed.
+
+  Lemma loop_snd its : forall first,
+    snd (sloop its first) = first && forallb (fun t => Reqb (snd t) 0) its.
+  Proof.
+    induction its as [|[i c] its IH]; intro first; [cbn; rewrite andb_true_r; reflexivity|].
+    rewrite sloop_cons. cbn [forallb snd]. destruct (Reqb c 0); cbn [andb].
+    - apply IH.
+    - cbn [snd]. rewrite IH. cbn [andb]. rewrite andb_false_r. reflexivity.
+  Qed.
+
+  Lemma split_norm its : forall a, ~ In c_plus a -> all_ok its ->
+    split_on c_plus (a ++ normtext its false) = a :: partsof its.
+  Proof.
+    induction its as [|[i c] its IH]; intros a Ha Hok.
+    - cbn [normtext partsof]. rewrite app_nil_r. apply split_on_nosep. exact Ha.
+    - cbn [normtext partsof]. destruct (Reqb c 0) eqn:Ec.
+      + apply IH; [exact Ha|exact (all_ok_tail _ _ Hok)].
+      + assert (Hn : num_ok (Rabs c)).
+        { apply (Hok i c); [left; reflexivity|apply Reqb_false; exact Ec]. }
+        cbn [andb app]. rewrite split_on_sep by exact Ha. f_equal.
+        apply IH; [apply nm_no_plus; exact Hn|exact (all_ok_tail _ _ Hok)].
+  Qed.
+
+  Lemma parts_norm its : all_ok its ->
+    drop_leading_empty (split_on c_plus (normtext its true)) = partsof its.
+  Proof.
+    induction its as [|[i c] its IH]; intro Hok; [reflexivity|].
+    cbn [normtext partsof]. destruct (Reqb c 0) eqn:Ec.
+    - apply IH. exact (all_ok_tail _ _ Hok).
+    - assert (Hn : num_ok (Rabs c)).
+      { apply (Hok i c); [left; reflexivity|apply Reqb_false; exact Ec]. }
+      cbn [andb]. destruct (Rltb 0 c).
+      + cbn [app]. rewrite split_norm; [|apply nm_no_plus; exact Hn|exact (all_ok_tail _ _ Hok)].
+        pose proof (nm_not_bad i c Hn) as Hb.
+        destruct (nm i c); [discriminate Hb|reflexivity].
+      + change ([c_plus] ++ nm i c ++ normtext its false) with ([] ++ c_plus :: (nm i c ++ normtext its false)).
+        rewrite split_on_sep by (intros []).
+        rewrite split_norm; [|apply nm_no_plus; exact Hn|exact (all_ok_tail _ _ Hok)].
+        reflexivity.
+  Qed.
+
+  Lemma parts_not_bad its : all_ok its -> existsb bad_part (partsof its) = false.
+  Proof.
+    induction its as [|[i c] its IH]; intro Hok; [reflexivity|].
+    cbn [partsof]. destruct (Reqb c 0) eqn:Ec; [apply IH; exact (all_ok_tail _ _ Hok)|].
+    cbn [existsb]. rewrite nm_not_bad, IH; [reflexivity|exact (all_ok_tail _ _ Hok)|].
+    apply (Hok i c); [left; reflexivity|apply Reqb_false; exact Ec].
+  Qed.
+
+  (* ---- which variable the parser finds ---- *)
+  Definition nmch (c : N) : bool :=
+    numch c || N.eqb c c_minus || N.eqb c c_caret || N.eqb c c_plus || N.eqb c var.
+
+  Lemma nmch_alpha c : nmch c = true -> c <> var -> u_alphabetic U c = false.
+  Proof.
+    unfold nmch. rewrite !orb_true_iff. intros [[[[H|H]|H]|H]|H] Hv.
+    - apply numch_not_alpha. exact H.
+    - apply N.eqb_eq in H. subst c. rewrite U_ascii by reflexivity. reflexivity.
+    - apply N.eqb_eq in H. subst c. rewrite U_ascii by reflexivity. reflexivity.
+    - apply N.eqb_eq in H. subst c. rewrite U_ascii by reflexivity. reflexivity.
+    - apply N.eqb_eq in H. contradiction.
+  Qed.
+
+  Lemma find_pred_nmch s : forallb nmch s = true ->
+    find_pred (u_alphabetic U) s = if existsb (N.eqb var) s then Some var else None.
+  Proof.
+    induction s as [|c s IH]; intro H; [reflexivity|].
+    cbn [forallb] in H. apply andb_true_iff in H. destruct H as [H1 H2].
+    cbn [find_pred existsb]. destruct (N.eqb_spec var c) as [E|E].
+    - subst c. rewrite var_alpha. reflexivity.
+    - rewrite (nmch_alpha c H1) by congruence. cbn [orb]. apply IH. exact H2.
+  Qed.
+
+  Lemma numch_nmch c : numch c = true -> nmch c = true.
+  Proof. intro H. unfold nmch. rewrite H. reflexivity. Qed.
+  Lemma body_ok_nmch s : body_ok s = true -> forallb nmch s = true.
+  Proof.
+    unfold body_ok. rewrite !forallb_forall. intros H c Hc. apply numch_nmch, H, Hc.
+  Qed.
+  Lemma var_nmch : nmch var = true.
+  Proof. unfold nmch. rewrite N.eqb_refl, !orb_true_r. reflexivity. Qed.
+
+  Lemma var_part_nmch i : forallb nmch (simple_var_part var i) = true.
+  Proof.
+    destruct i as [|[|i]]; cbn [simple_var_part forallb]; [reflexivity|rewrite var_nmch; reflexivity|].
+    rewrite var_nmch. cbn [andb]. apply andb_true_iff. split; [reflexivity|].
+    apply body_ok_nmch, all_digits_body_ok, nat_dec_digits.
+  Qed.
+
+  Lemma nm_nmch i c : num_ok (Rabs c) -> forallb nmch (nm i c) = true.
+  Proof.
+    intro H. unfold nm, body_of. rewrite !forallb_app.
+    rewrite (body_ok_nmch _ (cs_of_body_ok i c H)), var_part_nmch, !andb_true_r.
+    destruct (sgn_str_cases c) as [[E _]|[E _]]; rewrite E; reflexivity.
+  Qed.
+
+  Lemma normtext_nmch its : forall first, all_ok its -> forallb nmch (normtext its first) = true.
+  Proof.
+    induction its as [|[i c] its IH]; intros first Hok; [reflexivity|].
+    cbn [normtext]. destruct (Reqb c 0) eqn:Ec; [apply IH; exact (all_ok_tail _ _ Hok)|].
+    rewrite !forallb_app, nm_nmch, IH, !andb_true_r; [|exact (all_ok_tail _ _ Hok)|].
+    - destruct (first && Rltb 0 c); [reflexivity|]. cbn [forallb]. rewrite andb_true_r.
+      unfold nmch. rewrite N.eqb_refl, !orb_true_r. reflexivity.
+    - apply (Hok i c); [left; reflexivity|apply Reqb_false; exact Ec].
+  Qed.
+
+  (* a printed non-constant term puts the variable into the text *)
+  Lemma var_in_normtext its : forall first i c, In (i, c) its -> c <> 0 -> i <> O ->
+    In var (normtext its first).
+  Proof.
+    induction its as [|[j d] its IH]; intros first i c Hin Hc Hi; [contradiction|].
+    cbn [normtext]. destruct Hin as [E|Hin].
+    - injection E as -> ->. destruct (Reqb c 0) eqn:Ec; [apply Reqb_true in Ec; contradiction|].
+      apply in_or_app. right. apply in_or_app. left.
+      unfold nm, body_of. apply in_or_app. right. apply in_or_app. right.
+      destruct i as [|[|i]]; [contradiction|left; reflexivity|left; reflexivity].
+    - destruct (Reqb d 0); [exact (IH first i c Hin Hc Hi)|].
+      apply in_or_app. right. apply in_or_app. right. exact (IH false i c Hin Hc Hi).
+  Qed.
+
+  (* ---- one part back through simple_term ---- *)
+  Definition coeff_of (coeff_str : str) : res R :=
+    match coeff_str with
+    | [] => Ok n1
+    | [c] => if N.eqb c c_plus then Ok n1
+             else if N.eqb c c_minus then Ok (nneg n1)
+             else match parse_dec coeff_str with Some c => Ok c | None => Err EInvalidCoefficient end
+    | _ => match parse_dec coeff_str with Some c => Ok c | None => Err EInvalidCoefficient end
+    end.
+
+  Lemma simple_term_var a rest : ~ In var a ->
+    @simple_term R RNum (Some var) (a ++ var :: rest) =
+    match coeff_of a with
+    | Ok c =>
+        match rest with
+        | [] => Ok (c, 1%nat)
+        | r :: pow_str =>
+            if N.eqb r c_caret then
+              match parse_nat_text pow_str with
+              | Some p => if (p <=? MAX_POWER)%Z then Ok (c, Z.to_nat p) else Err EInvalidExponent
+              | None => Err EInvalidExponent
+              end
+            else Err EUnexpectedChar
+        end
+    | Err e => Err e
+    | Panic w => Panic w
+    end.
+  Proof.
+    intro H. unfold simple_term. rewrite find_char_app by exact H.
+    rewrite firstn_app_exact, skipn_S_app. reflexivity.
+  Qed.
+
+  Lemma coeff_of_num s v : body_ok s = true -> @parse_dec R RNum s = Some v -> coeff_of s = Ok v.
+  Proof.
+    intros Hb Hp. destruct s as [|d [|e s]]; [discriminate Hp| |].
+    - unfold coeff_of. cbn [body_ok forallb] in Hb. rewrite andb_true_r in Hb.
+      destruct (numch_facts d Hb) as [P _]. unfold plainb in P.
+      apply andb_true_iff in P. destruct P as [P P2]. apply andb_true_iff in P. destruct P as [_ P1].
+      apply negb_true_iff in P1, P2. rewrite P1, P2, Hp. reflexivity.
+    - unfold coeff_of. rewrite Hp. reflexivity.
+  Qed.
+
+  Lemma parse_dec_neg s v : body_ok s = true -> @parse_dec R RNum s = Some v ->
+    @parse_dec R RNum (c_minus :: s) = Some (- v).
+  Proof.
+    intros Hb Hp. rewrite parse_dec_minus.
+    rewrite parse_dec_unsigned in Hp; [|intro t; apply body_ok_not_minus; exact Hb
+                                       |intro E; subst s; discriminate Hp].
+    rewrite Hp. reflexivity.
+  Qed.
+
+  Lemma coeff_of_neg_num s v : body_ok s = true -> @parse_dec R RNum s = Some v ->
+    coeff_of (c_minus :: s) = Ok (- v).
+  Proof.
+    intros Hb Hp. pose proof (parse_dec_neg s v Hb Hp) as Hn.
+    destruct s as [|d s]; [discriminate Hp|].
+    unfold coeff_of. rewrite Hn. reflexivity.
+  Qed.
+
+  (* the value one printed term reads back as *)
+  Definition readc (i : nat) (c : R) : R :=
+    if nneb (nabs c) n1 || Nat.eqb i 0 then (if Rltb c 0 then - rd (Rabs c) else rd (Rabs c)) else c.
+
+  Lemma rest_power i c0 : (2 <= i)%nat -> (Z.of_nat i <= 65535)%Z ->
+    (if N.eqb c_caret c_caret then
+       match parse_nat_text (nat_dec i) with
+       | Some p => if (p <=? MAX_POWER)%Z then Ok (c0, Z.to_nat p) else Err EInvalidExponent
+       | None => Err EInvalidExponent
+       end
+     else Err EUnexpectedChar) = @Ok (R * nat) (c0, i).
+  Proof.
+    intros _ Hi. rewrite N.eqb_refl, parse_nat_text_nat_dec.
+    unfold MAX_POWER. destruct (Z.leb_spec (Z.of_nat i) 65535) as [L|L]; [|lia].
+    rewrite Nat2Z.id. reflexivity.
+  Qed.
+
+  Lemma term_reads (variable : option N) i c :
+    c <> 0 -> num_ok (Rabs c) -> (Z.of_nat i <= 65535)%Z ->
+    (variable = Some var \/ (variable = None /\ i = O)) ->
+    @simple_term R RNum variable (nm i c) = Ok (readc i c, i).
+  Proof.
+    intros Hc [Hb Hp] Hi Hv.
+    pose proof (body_ok_no_var _ Hb) as NoVar.
+    assert (Hsgn : forall s, body_ok s = true -> ~ In var (sgn_str c ++ s)).
+    { intros s Hs Hin. apply in_app_or in Hin. destruct Hin as [Hin|Hin].
+      - destruct (sgn_str_cases c) as [[E _]|[E _]]; rewrite E in Hin; [contradiction|].
+        destruct Hin as [X|[]]. destruct var_facts as [_ [_ [V _]]]. congruence.
+      - exact (body_ok_no_var _ Hs Hin). }
+    destruct i as [|i].
+    - (* constant term: the whole part is a signed decimal *)
+      unfold nm, body_of, cs_of, readc. cbn [Nat.eqb simple_var_part]. rewrite orb_true_r, app_nil_r.
+      cbn [nabs RNum].
+      assert (Pd : @parse_dec R RNum (sgn_str c ++ fnum (Rabs c))
+                   = Some (if Rltb c 0 then - rd (Rabs c) else rd (Rabs c))).
+      { unfold sgn_str. destruct (Rltb c 0); cbn [app]; [apply parse_dec_neg; assumption|exact Hp]. }
+      unfold simple_term. rewrite Pd.
+      destruct Hv as [->|[-> _]]; [|reflexivity].
+      rewrite find_char_none by (apply Hsgn; exact Hb). reflexivity.
+    - destruct Hv as [->|[_ X]]; [|discriminate X].
+      unfold nm, body_of.
+      assert (Ev : simple_var_part var (S i) = var :: match i with O => [] | _ => c_caret :: nat_dec (S i) end).
+      { destruct i; reflexivity. }
+      rewrite Ev, app_assoc.
+      rewrite simple_term_var by (apply Hsgn; apply cs_of_body_ok; split; assumption).
+      unfold readc, cs_of. cbn [Nat.eqb nabs RNum]. rewrite orb_false_r.
+      destruct (nneb (Rabs c) n1) eqn:E1.
+      + (* coefficient printed *)
+        assert (Cf : coeff_of (sgn_str c ++ fnum (Rabs c))
+                     = Ok (if Rltb c 0 then - rd (Rabs c) else rd (Rabs c))).
+        { unfold sgn_str. destruct (Rltb c 0); cbn [app];
+            [apply coeff_of_neg_num; assumption|apply coeff_of_num; assumption]. }
+        rewrite Cf. destruct i; [reflexivity|]. apply rest_power; lia.
+      + (* unit coefficient elided: "" or "-" *)
+        rewrite app_nil_r.
+        assert (Habs : Rabs c = 1).
+        { unfold nneb in E1. apply negb_false_iff in E1. cbn [neqb n1 RNum] in E1.
+          apply Reqb_true in E1. exact E1. }
+        assert (Cf : coeff_of (sgn_str c) = Ok c).
+        { unfold sgn_str. destruct (Rltb c 0) eqn:En; cbn [coeff_of].
+          - rewrite N.eqb_refl. replace (N.eqb c_minus c_plus) with false by reflexivity.
+            cbn [nneg n1 RNum]. apply Rltb_true in En. rewrite Rabs_left in Habs by exact En.
+            f_equal. lra.
+          - cbn [n1 RNum]. apply Rltb_false in En. rewrite Rabs_right in Habs by lra.
+            f_equal. lra. }
+        rewrite Cf. destruct i; [reflexivity|]. apply rest_power; lia.
+  Qed.
+
+  Fixpoint termsof (its : list (nat * R)) : list (R * nat) :=
+    match its with
+    | [] => []
+    | (i, c) :: r => if Reqb c 0 then termsof r else (readc i c, i) :: termsof r
+    end.
+
+  Lemma mapM_parts (variable : option N) its : all_ok its ->
+    (forall i c, In (i, c) its -> (Z.of_nat i <= 65535)%Z) ->
+    (variable = Some var \/ (variable = None /\ forall i c, In (i, c) its -> c <> 0 -> i = O)) ->
+    mapM (@simple_term R RNum variable) (partsof its) = Ok (termsof its).
+  Proof.
+    induction its as [|[i c] its IH]; intros Hok Hi Hv; [reflexivity|].
+    assert (Hv' : variable = Some var \/ (variable = None /\ forall i c, In (i, c) its -> c <> 0 -> i = O)).
+    { destruct Hv as [Hv|[Hv1 Hv2]]; [left; exact Hv|right; split; [exact Hv1|]].
+      intros j d Hin. apply Hv2. right. exact Hin. }
+    assert (Hi' : forall i c, In (i, c) its -> (Z.of_nat i <= 65535)%Z).
+    { intros j d Hin. apply (Hi j d). right. exact Hin. }
+    cbn [partsof termsof]. destruct (Reqb c 0) eqn:Ec.
+    - apply IH; [exact (all_ok_tail _ _ Hok)|exact Hi'|exact Hv'].
+    - assert (Hc : c <> 0) by (apply Reqb_false; exact Ec).
+      cbn [mapM]. rewrite term_reads; [| exact Hc | apply (Hok i c); [left; reflexivity|exact Hc]
+                                       | apply (Hi i c); left; reflexivity | ].
+      + cbn [bind]. rewrite IH; [reflexivity|exact (all_ok_tail _ _ Hok)|exact Hi'|exact Hv'].
+      + destruct Hv as [Hv|[Hv1 Hv2]]; [left; exact Hv|right; split; [exact Hv1|]].
+        apply (Hv2 i c); [left; reflexivity|exact Hc].
+  Qed.
+
+  Lemma termsof_app a b : termsof (a ++ b) = termsof a ++ termsof b.
+  Proof.
+    induction a as [|[i c] a IH]; [reflexivity|]. cbn [app termsof].
+    destruct (Reqb c 0); [exact IH|]. cbn [app]. f_equal. exact IH.
+  Qed.
+  Lemma termsof_rev a : termsof (rev a) = rev (termsof a).
+  Proof.
+    induction a as [|[i c] a IH]; [reflexivity|]. cbn [rev termsof].
+    rewrite termsof_app, IH. cbn [termsof]. destruct (Reqb c 0); cbn [rev]; [rewrite app_nil_r|]; reflexivity.
+  Qed.
+
+  Lemma termsof_bound its t : (forall i c, In (i, c) its -> (Z.of_nat i <= 65535)%Z) ->
+    In t (termsof its) -> (Z.of_nat (snd t) <= 65535)%Z.
+  Proof.
+    induction its as [|[i c] its IH]; intros Hi Hin; [contradiction|].
+    cbn [termsof] in Hin.
+    assert (Hi' : forall i c, In (i, c) its -> (Z.of_nat i <= 65535)%Z).
+    { intros j d H. apply (Hi j d). right. exact H. }
+    destruct (Reqb c 0); [exact (IH Hi' Hin)|].
+    destruct Hin as [<-|Hin]; [cbn [snd]; apply (Hi i c); left; reflexivity|exact (IH Hi' Hin)].
+  Qed.
+
+  (* what degree k reads back as *)
+  Definition readc' (k : nat) (c : R) : R := if Reqb c 0 then 0 else readc k c.
+
+  Lemma sumat_enumerate cs : forall s k,
+    sumat k (termsof (combine (seq s (length cs)) cs))
+    = if (s <=? k)%nat then readc' k (nth (k - s) cs 0) else 0.
+  Proof.
+    induction cs as [|c cs IH]; intros s k.
+    - cbn. unfold readc'. destruct (k - s)%nat; destruct (s <=? k)%nat; try reflexivity;
+        (replace (Reqb 0 0) with true by (symmetry; apply Reqb_true; reflexivity)); reflexivity.
+    - cbn [length seq combine termsof].
+      assert (Tail : sumat k (termsof (combine (seq (S s) (length cs)) cs))
+                     = if (S s <=? k)%nat then readc' k (nth (k - S s) cs 0) else 0) by apply IH.
+      destruct (Nat.leb_spec s k) as [L|L].
+      + destruct (Nat.eq_dec s k) as [E|E].
+        * subst k. replace (s - s)%nat with O by lia. cbn [nth].
+          destruct (Nat.leb_spec (S s) s) as [L2|L2]; [lia|].
+          unfold readc'. destruct (Reqb c 0).
+          -- rewrite Tail. reflexivity.
+          -- cbn [sumat snd fst]. rewrite Nat.eqb_refl, Tail. ring.
+        * destruct (Nat.leb_spec (S s) k) as [L2|L2]; [|lia].
+          replace (k - s)%nat with (S (k - S s)) by lia. cbn [nth].
+          destruct (Reqb c 0).
+          -- rewrite Tail. reflexivity.
+          -- cbn [sumat snd fst]. replace (Nat.eqb s k) with false by (symmetry; apply Nat.eqb_neq; exact E).
+             rewrite Tail. ring.
+      + destruct (Nat.leb_spec (S s) k) as [L2|L2]; [lia|].
+        destruct (Reqb c 0).
+        * rewrite Tail. reflexivity.
+        * cbn [sumat snd fst]. replace (Nat.eqb s k) with false by (symmetry; apply Nat.eqb_neq; lia).
+          rewrite Tail. ring.
+  Qed.
+
+  Lemma enumerate_in (cs : list R) (i : nat) (c : R) : In (i, c) (enumerate_rev cs) -> (i < length cs)%nat /\ In c cs.
+  Proof.
+    unfold enumerate_rev. rewrite <- in_rev. intro H.
+    split; [apply in_combine_l in H; apply in_seq in H; lia|apply in_combine_r in H; exact H].
+  Qed.
+
+  (* ---- from the normalised text to the parsed polynomial ---- *)
+  Lemma parse_zero_text :
+    exists p', parse_simple U [c_zero] = Ok p' /\ (forall k, nth k (s_coefs p') 0 = 0) /\ s_var p' = None.
+  Proof.
+    assert (A0 : u_alphabetic U c_zero = false) by (rewrite U_ascii by reflexivity; reflexivity).
+    assert (Hd : @dense_coeffs_checked R RNum [(@nofdec R RNum 0 0, O)] = Ok (dense_coeffs [(@nofdec R RNum 0 0, O)])).
+    { apply dense_coeffs_checked_ok. intros t Ht. destruct Ht as [<-|[]]. cbn [snd]. lia. }
+    exists {| s_coefs := dense_coeffs [(@nofdec R RNum 0 0, O)]; s_var := None |}. split; [|split].
+    - unfold parse_simple.
+      change (strip_ws [c_zero]) with [c_zero].
+      change (minus_to_plusminus [c_zero]) with [c_zero].
+      change (split_on c_plus [c_zero]) with [[c_zero]].
+      cbn [drop_leading_empty existsb bad_part orb find_pred]. rewrite A0.
+      cbn [mapM simple_term bind].
+      change (@parse_dec R RNum [c_zero]) with (Some (@nofdec R RNum 0 0)).
+      cbn [bind]. rewrite Hd. reflexivity.
+    - intro k. cbn [s_coefs]. rewrite dense_coeffs_nth. cbn [sumat snd fst].
+      rewrite nofdec_R. destruct (Nat.eqb 0 k); ring.
+    - reflexivity.
+  Qed.
+
+  Lemma parse_from_norm (input : str) its : all_ok its ->
+    (forall i c, In (i, c) its -> (Z.of_nat i <= 65535)%Z) ->
+    minus_to_plusminus (strip_ws input) = normtext its true ->
+    exists p', parse_simple U input = Ok p'
+      /\ (forall k, nth k (s_coefs p') 0 = sumat k (termsof its))
+      /\ ((exists i c, In (i, c) its /\ c <> 0 /\ i <> O) -> s_var p' = Some var).
+  Proof.
+    intros Hok Hi Hnorm.
+    unfold parse_simple. rewrite Hnorm, (parts_norm its Hok), (parts_not_bad its Hok).
+    rewrite (find_pred_nmch _ (normtext_nmch its true Hok)).
+    destruct (existsb (N.eqb var) (normtext its true)) eqn:Ev.
+    - rewrite (mapM_parts (Some var) its Hok Hi (or_introl eq_refl)).
+      rewrite dense_coeffs_checked_ok by (intros t Ht; exact (termsof_bound its t Hi Ht)).
+      eexists. split; [reflexivity|]. cbn [s_coefs s_var]. split; [|reflexivity].
+      intro k. apply dense_coeffs_nth.
+    - assert (Hconst : forall i c, In (i, c) its -> c <> 0 -> i = O).
+      { intros i c Hin Hc. destruct i as [|i]; [reflexivity|exfalso].
+        pose proof (var_in_normtext its true (S i) c Hin Hc ltac:(discriminate)) as Hv.
+        assert (X : existsb (N.eqb var) (normtext its true) = true).
+        { apply existsb_exists. exists var. split; [exact Hv|apply N.eqb_refl]. }
+        congruence. }
+      rewrite (mapM_parts None its Hok Hi (or_intror (conj eq_refl Hconst))).
+      rewrite dense_coeffs_checked_ok by (intros t Ht; exact (termsof_bound its t Hi Ht)).
+      eexists. split; [reflexivity|]. cbn [s_coefs s_var]. split.
+      + intro k. apply dense_coeffs_nth.
+      + intros [i [c [Hin [Hc Hi0]]]]. exfalso. apply Hi0. exact (Hconst i c Hin Hc).
+  Qed.
+
+  Lemma nth_in_enumerate (cs : list R) k : (k < length cs)%nat ->
+    In (k, nth k cs 0) (combine (seq 0 (length cs)) cs).
+  Proof.
+    intro L.
+    replace (k, nth k cs 0) with (nth k (combine (seq 0 (length cs)) cs) (O, 0)).
+    - apply nth_In. rewrite combine_length, seq_length. lia.
+    - rewrite combine_nth by apply seq_length. rewrite seq_nth by exact L. reflexivity.
+  Qed.
+
+  (* ---- the generic theorem ---- *)
+  Theorem simple_roundtrip_generic (p : spoly R) :
+    (Z.of_nat (length (s_coefs p)) <= 65536)%Z ->
+    var = match s_var p with Some v => v | None => c_x end ->
+    (forall c, In c (s_coefs p) -> c <> 0 -> num_ok (Rabs c)) ->
+    exists p', parse_simple U (fmt_simple fmt_prec fmt_short prec p) = Ok p'
+      /\ (forall k, nth k (s_coefs p') 0 = readc' k (nth k (s_coefs p) 0))
+      /\ ((exists k, k <> O /\ nth k (s_coefs p) 0 <> 0) -> s_var p' = Some var).
+  Proof.
+    intros Hlen Hvar Hnum.
+    set (its := enumerate_rev (s_coefs p)).
+    assert (Hok : all_ok its).
+    { intros i c Hin Hc. apply Hnum; [exact (proj2 (enumerate_in _ _ _ Hin))|exact Hc]. }
+    assert (Hi : forall i c, In (i, c) its -> (Z.of_nat i <= 65535)%Z).
+    { intros i c Hin. pose proof (proj1 (enumerate_in _ _ _ Hin)). lia. }
+    unfold fmt_simple. rewrite <- Hvar. fold its.
+    pose proof (loop_snd its true) as Hsnd. pose proof (loop_norm its true Hok) as Hnorm.
+    destruct (sloop its true) as [s first] eqn:Eloop. cbn [fst snd] in Hsnd, Hnorm.
+    cbn [andb] in Hsnd.
+    assert (Hsum : forall k, sumat k (termsof its) = readc' k (nth k (s_coefs p) 0)).
+    { intro k. unfold its, enumerate_rev. rewrite termsof_rev, sumat_rev, sumat_enumerate.
+      cbn [Nat.leb]. rewrite Nat.sub_0_r. reflexivity. }
+    destruct first.
+    - (* every coefficient is zero: "0" *)
+      symmetry in Hsnd. rewrite forallb_forall in Hsnd.
+      assert (Z0 : forall k, nth k (s_coefs p) 0 = 0).
+      { intro k. destruct (Nat.lt_ge_cases k (length (s_coefs p))) as [L|L]; [|apply nth_overflow; exact L].
+        assert (Hin : In (k, nth k (s_coefs p) 0) its).
+        { unfold its, enumerate_rev. rewrite <- in_rev. apply nth_in_enumerate. exact L. }
+        specialize (Hsnd _ Hin). cbn [snd] in Hsnd. apply Reqb_true in Hsnd. exact Hsnd. }
+      destruct parse_zero_text as [p' [P1 [P2 P3]]].
+      exists p'. split; [exact P1|split].
+      + intro k. rewrite P2, Z0. unfold readc'.
+        replace (Reqb 0 0) with true by (symmetry; apply Reqb_true; reflexivity). reflexivity.
+      + intros [k [_ Hk]]. exfalso. apply Hk. apply Z0.
+    - (* at least one term is printed *)
+      destruct (parse_from_norm s its Hok Hi Hnorm) as [p' [P1 [P2 P3]]].
+      exists p'. split; [exact P1|split].
+      + intro k. rewrite P2. apply Hsum.
+      + intros [k [Hk0 Hk]]. apply P3.
+        assert (L : (k < length (s_coefs p))%nat).
+        { destruct (Nat.lt_ge_cases k (length (s_coefs p))) as [L|L]; [exact L|].
+          exfalso. apply Hk. apply nth_overflow. exact L. }
+        exists k, (nth k (s_coefs p) 0). split; [|split; assumption].
+        unfold its, enumerate_rev. rewrite <- in_rev. apply nth_in_enumerate. exact L.
+  Qed.
+End SimpleRT.
+
+(* ========================================================================== *)
+(** * C17: statements for SimplePolynomial *)
+
+(* H1 for one value: [-]digits[.digits], the sign exactly for negative values *)
+Definition short_shape (x : R) (s : str) : Prop :=
+  if Rltb x 0 then exists b, s = c_minus :: b /\ body_ok b = true else body_ok s = true.
+
+(* the contract of `{:.p}`: sign, then the digits of an integer within 1/2 of |x|*10^p,
+   with the decimal point p places from the right (Part C: the executable float_fmt_prec meets it) *)
+Definition prec_spec (F : R -> Prop) (fmt_prec : nat -> R -> str) : Prop :=
+  (forall p x, F x -> x < 0 -> fmt_prec p x = c_minus :: fmt_prec p (- x))
+  /\ (forall p x, F x -> 0 <= x ->
+        exists n, (0 <= n)%Z /\ Rabs (IZR n - x * 10 ^ p) <= / 2 /\ fmt_prec p x = dec_point p n).
+
+Section C17Simple.
+  Variable U : UClass.
+  Hypothesis U_ascii : forall c, (c < 128)%N -> u_alphabetic U c = is_ascii_letter c.
+  Variable F : R -> Prop.                    (* the values the number type holds (finite binary64 values) *)
+  Hypothesis F_opp : forall x, F x -> F (- x).
+  Variable fmt_prec : nat -> R -> str.
+  Variable fmt_short : R -> str.
+
+  Definition good_var (p : spoly R) : Prop :=
+    let v := match s_var p with Some v => v | None => c_x end in
+    u_alphabetic U v = true /\ is_whitespace v = false.
+
+  Lemma F_abs x : F x -> F (Rabs x).
+  Proof.
+    intro H. unfold Rabs. destruct (Rcase_abs x); [apply F_opp; exact H|exact H].
+  Qed.
+
+  Lemma readc'_id k c : readc' (fun x => x) k c = c.
+  Proof.
+    unfold readc', readc. destruct (Reqb c 0) eqn:E; [apply Reqb_true in E; congruence|].
+    destruct (nneb (nabs c) n1 || Nat.eqb k 0); [|reflexivity].
+    destruct (Rltb c 0) eqn:En.
+    - apply Rltb_true in En. rewrite Rabs_left by exact En. ring.
+    - apply Rltb_false in En. apply Rabs_right. lra.
+  Qed.
+
+  Lemma readc'_near (rd : R -> R) eps k c : 0 <= eps ->
+    (c <> 0 -> Rabs (rd (Rabs c) - Rabs c) <= eps) -> Rabs (readc' rd k c - c) <= eps.
+  Proof.
+    intros He H. unfold readc', readc. destruct (Reqb c 0) eqn:E.
+    - apply Reqb_true in E. subst c. rewrite Rminus_0_r, Rabs_R0. exact He.
+    - apply Reqb_false in E. specialize (H E).
+      destruct (nneb (nabs c) n1 || Nat.eqb k 0).
+      + destruct (Rltb c 0) eqn:En.
+        * apply Rltb_true in En. rewrite (Rabs_left c En) in *.
+          replace (- rd (- c) - c) with (- (rd (- c) - - c)) by ring. rewrite Rabs_Ropp. exact H.
+        * apply Rltb_false in En. rewrite (Rabs_right c) in * by lra. exact H.
+      + replace (c - c) with 0 by ring. rewrite Rabs_R0. exact He.
+  Qed.
+
+  (* ---- default formatting ---- *)
+  Section Default.
+    Hypothesis H1 : forall x, F x -> short_shape x (fmt_short x).
+    Hypothesis H2 : forall x, F x -> @parse_dec R RNum (fmt_short x) = Some x.
+
+    Lemma c17_simple_default : forall p : spoly R,
+      (forall c, In c (s_coefs p) -> F c) ->
+      (Z.of_nat (length (s_coefs p)) <= 65536)%Z ->
+      good_var p ->
+      exists p', parse_simple U (fmt_simple fmt_prec fmt_short None p) = Ok p'
+        /\ (forall k, nth k (s_coefs p') 0 = nth k (s_coefs p) 0)
+        /\ ((exists k, k <> O /\ nth k (s_coefs p) 0 <> 0) ->
+            s_var p' = Some (match s_var p with Some v => v | None => c_x end)).
+    Proof.
+      intros p HF Hlen [Hv1 Hv2].
+      destruct (simple_roundtrip_generic U U_ascii fmt_prec fmt_short None (fun x => x)
+                  (match s_var p with Some v => v | None => c_x end) Hv1 Hv2 p Hlen eq_refl)
+        as [p' [P1 [P2 P3]]].
+      - intros c Hin Hc. pose proof (F_abs c (HF c Hin)) as Fa.
+        split.
+        + pose proof (H1 _ Fa) as S. unfold short_shape in S.
+          replace (Rltb (Rabs c) 0) with false in S; [exact S|].
+          symmetry. apply Rltb_false. apply Rabs_pos.
+        + apply H2. exact Fa.
+      - exists p'. split; [exact P1|split; [|exact P3]].
+        intro k. rewrite P2. apply readc'_id.
+    Qed.
+  End Default.
+
+  (* ---- with a precision ---- *)
+  Section Precision.
+    Hypothesis Hspec : prec_spec F fmt_prec.
+
+    Definition rd_prec (prec : nat) (a : R) : R :=
+      match @parse_dec R RNum (trim_num (fmt_prec prec a)) with Some y => y | None => 0 end.
+
+    Lemma c17_precision_simple : forall (prec : nat) (p : spoly R),
+      (forall c, In c (s_coefs p) -> F c) ->
+      (Z.of_nat (length (s_coefs p)) <= 65536)%Z ->
+      good_var p ->
+      exists p', parse_simple U (fmt_simple fmt_prec fmt_short (Some prec) p) = Ok p'
+        /\ (forall k, Rabs (nth k (s_coefs p') 0 - nth k (s_coefs p) 0) <= / 2 * / 10 ^ prec)
+        /\ ((exists k, k <> O /\ nth k (s_coefs p) 0 <> 0) ->
+            s_var p' = Some (match s_var p with Some v => v | None => c_x end)).
+    Proof.
+      intros prec p HF Hlen [Hv1 Hv2]. destruct Hspec as [_ Hpos].
+      assert (Hnum : forall c, In c (s_coefs p) ->
+                 body_ok (trim_num (fmt_prec prec (Rabs c))) = true
+                 /\ @parse_dec R RNum (trim_num (fmt_prec prec (Rabs c))) = Some (rd_prec prec (Rabs c))
+                 /\ Rabs (rd_prec prec (Rabs c) - Rabs c) <= / 2 * / 10 ^ prec).
+      { intros c Hin. pose proof (F_abs c (HF c Hin)) as Fa.
+        destruct (Hpos prec (Rabs c) Fa (Rabs_pos c)) as [n [N0 [N1 N2]]].
+        destruct (trim_num_dec_point prec n N0) as [T1 [T2 _]].
+        destruct (fmt_prec_number_level prec n (Rabs c) N0 N1) as [y [Y1 [_ Y3]]].
+        unfold rd_prec. rewrite N2, Y1. repeat split; [exact T1|exact Y3]. }
+      destruct (simple_roundtrip_generic U U_ascii fmt_prec fmt_short (Some prec) (rd_prec prec)
+                  (match s_var p with Some v => v | None => c_x end) Hv1 Hv2 p Hlen eq_refl)
+        as [p' [P1 [P2 P3]]].
+      - intros c Hin _. destruct (Hnum c Hin) as [A [B _]]. split; [exact A|exact B].
+      - exists p'. split; [exact P1|split; [|exact P3]].
+        intro k. rewrite P2. apply readc'_near.
+        + pose proof (pow10_pos prec). apply Rmult_le_pos; [lra|left; apply Rinv_0_lt_compat; assumption].
+        + intros Hc. destruct (nth_in_or_default k (s_coefs p) 0) as [Hin|E]; [|contradiction].
+          apply (Hnum _ Hin).
+    Qed.
+  End Precision.
+End C17Simple.
+
+(* ========================================================================== *)
+(** * Part E: LinearModel::to_polynomial_string *)
+
+Definition pat_pm : str := [c_plus; c_space; c_minus].     (* "+ -" *)
+Definition rep_pm : str := [c_minus; c_space].              (* "- "  *)
+
+Lemma replace_pass a s : ~ In c_plus a ->
+  replace_go pat_pm rep_pm 0 (a ++ s) = a ++ replace_go pat_pm rep_pm 0 s.
+Proof.
+  induction a as [|x a IH]; intro H; [reflexivity|].
+  cbn [app replace_go]. 
+  assert (E : is_prefix pat_pm (x :: a ++ s) = false).
+  { cbn [is_prefix pat_pm]. destruct (N.eqb_spec c_plus x) as [X|X]; [|reflexivity].
+    exfalso. apply H. left. symmetry. exact X. }
+  rewrite E. f_equal. apply IH. intro X. apply H. right. exact X.
+Qed.
+
+Lemma replace_sep_neg s :
+  replace_go pat_pm rep_pm 0 (sep_plus ++ c_minus :: s) = sep_minus ++ replace_go pat_pm rep_pm 0 s.
+Proof. reflexivity. Qed.
+
+Lemma replace_sep_pos d s : d <> c_minus ->
+  replace_go pat_pm rep_pm 0 (sep_plus ++ d :: s) = sep_plus ++ replace_go pat_pm rep_pm 0 (d :: s).
+Proof.
+  intro H. unfold sep_plus. cbn [app]. 
+  change (replace_go pat_pm rep_pm 0 (32%N :: 43%N :: 32%N :: d :: s))
+    with (32%N :: (if N.eqb c_minus d && true then rep_pm ++ replace_go pat_pm rep_pm 2 (32%N :: d :: s)
+                   else 43%N :: 32%N :: replace_go pat_pm rep_pm 0 (d :: s))).
+  destruct (N.eqb_spec c_minus d) as [X|X]; [congruence|reflexivity].
+Qed.
+
+Lemma join_cons sep p ps : join sep (p :: ps) = p ++ concat (map (fun q => sep ++ q) ps).
+Proof.
+  revert p. induction ps as [|q ps IH]; intro p; [cbn; rewrite app_nil_r; reflexivity|].
+  change (join sep (p :: q :: ps)) with (p ++ sep ++ join sep (q :: ps)).
+  rewrite IH. cbn [map concat]. rewrite <- app_assoc. reflexivity.
+Qed.
+
+Section ModelString.
+  Variable U : UClass.
+  Hypothesis U_ascii : forall c, (c < 128)%N -> u_alphabetic U c = is_ascii_letter c.
+  Variable F : R -> Prop.
+  Hypothesis F_opp : forall x, F x -> F (- x).
+  Variable fmt_prec : nat -> R -> str.
+  Hypothesis Hspec : prec_spec F fmt_prec.
+
+  Let FS5 := fmt_prec 5%nat.
+  Let rd5 (a : R) : R := match @parse_dec R RNum (fmt_prec 5%nat a) with Some y => y | None => 0 end.
+
+  Lemma x_alpha : u_alphabetic U c_x = true.
+  Proof. rewrite U_ascii by reflexivity. reflexivity. Qed.
+  Lemma x_nws : is_whitespace c_x = false. Proof. reflexivity. Qed.
+
+  Notation nm5 := (nm fmt_prec FS5 None c_x).
+  Notation norm5 := (normtext fmt_prec FS5 None c_x).
+  Notation ok5 := (num_ok fmt_prec FS5 None rd5).
+
+  Lemma num_ok5 c : F c -> ok5 (Rabs c) /\ Rabs (rd5 (Rabs c) - Rabs c) <= / 2 * / 10 ^ 5.
+  Proof.
+    intro Fc. destruct Hspec as [_ Hpos].
+    pose proof (F_abs F F_opp c Fc) as Fa.
+    destruct (Hpos 5%nat (Rabs c) Fa (Rabs_pos c)) as [n [N0 [N1 N2]]].
+    destruct (trim_num_dec_point 5 n N0) as [_ [_ [T3 T4]]].
+    destruct (fmt_prec_number_level 5 n (Rabs c) N0 N1) as [y [_ [Y2 Y3]]].
+    unfold num_ok, fmt_num, rd5, FS5. rewrite N2, Y2. repeat split; [exact T3|exact Y3].
+  Qed.
+
+  (* one part of the model string is the part the Display of SimplePolynomial would print *)
+  Lemma model_term_nm i c : F c -> c <> 0 -> model_term fmt_prec i c = nm5 i c.
+  Proof.
+    intros Fc Hc. destruct Hspec as [Hneg _].
+    assert (Full : fmt_prec 5%nat c = sgn_str c ++ FS5 (Rabs c)).
+    { unfold sgn_str, FS5. destruct (Rltb c 0) eqn:En.
+      - apply Rltb_true in En. rewrite (Hneg 5%nat c Fc En), (Rabs_left c En). reflexivity.
+      - apply Rltb_false in En. rewrite (Rabs_right c) by lra. reflexivity. }
+    assert (Unit1 : c = 1 -> sgn_str c = [] /\ nneb (Rabs c) 1 = false).
+    { intro E. subst c. split.
+      - unfold sgn_str. replace (Rltb 1 0) with false; [reflexivity|]. symmetry. apply Rltb_false. lra.
+      - unfold nneb. cbn [neqb RNum]. rewrite Rabs_R1. 
+        replace (Reqb 1 1) with true; [reflexivity|]. symmetry. apply Reqb_true. reflexivity. }
+    assert (Unitm : c = -1 -> sgn_str c = [c_minus] /\ nneb (Rabs c) 1 = false).
+    { intro E. subst c. split.
+      - unfold sgn_str. replace (Rltb (-1) 0) with true; [reflexivity|]. symmetry. apply Rltb_true. lra.
+      - unfold nneb. cbn [neqb RNum]. replace (Rabs (-1)) with 1 by (rewrite Rabs_left by lra; lra).
+        replace (Reqb 1 1) with true; [reflexivity|]. symmetry. apply Reqb_true. reflexivity. }
+    assert (NonUnit : c <> 1 -> c <> -1 -> nneb (Rabs c) 1 = true).
+    { intros A B. unfold nneb. cbn [neqb RNum]. apply negb_true_iff. apply Reqb_false.
+      intro E. unfold Rabs in E. destruct (Rcase_abs c); [apply B; lra|apply A; exact E]. }
+    unfold nm, body_of, cs_of. cbn [nabs n1 RNum].
+    destruct i as [|[|i]]; cbn [model_term Nat.eqb simple_var_part].
+    - rewrite orb_true_r, app_nil_r. exact Full.
+    - rewrite orb_false_r. cbn [neqb nneg n1 RNum].
+      destruct (Reqb c 1) eqn:E1.
+      + apply Reqb_true in E1. destruct (Unit1 E1) as [A B]. rewrite A, B. reflexivity.
+      + destruct (Reqb c (- (1))) eqn:E2.
+        * apply Reqb_true in E2. assert (E2' : c = -1) by lra.
+          destruct (Unitm E2') as [A B]. rewrite A, B. reflexivity.
+        * apply Reqb_false in E1, E2. assert (E2' : c <> -1) by (intro X; apply E2; lra).
+          rewrite (NonUnit E1 E2'), Full, <- app_assoc. reflexivity.
+    - rewrite orb_false_r. cbn [neqb nneg n1 RNum].
+      destruct (Reqb c 1) eqn:E1.
+      + apply Reqb_true in E1. destruct (Unit1 E1) as [A B]. rewrite A, B. reflexivity.
+      + destruct (Reqb c (- (1))) eqn:E2.
+        * apply Reqb_true in E2. assert (E2' : c = -1) by lra.
+          destruct (Unitm E2') as [A B]. rewrite A, B. reflexivity.
+        * apply Reqb_false in E1, E2. assert (E2' : c <> -1) by (intro X; apply E2; lra).
+          rewrite (NonUnit E1 E2'), Full, <- app_assoc. reflexivity.
+  Qed.
+
+  Lemma nm5_split i c : F c -> c <> 0 ->
+    exists body, nm5 i c = sgn_str c ++ body /\ plain body = true /\ body <> [].
+  Proof.
+    intros Fc Hc. destruct (num_ok5 c Fc) as [Hn _].
+    exists (body_of fmt_prec FS5 None c_x i c). split; [reflexivity|split].
+    - apply (body_of_plain U U_ascii fmt_prec FS5 None rd5 c_x x_alpha x_nws). exact Hn.
+    - apply (body_of_nonempty fmt_prec FS5 None rd5 c_x). exact Hn.
+  Qed.
+
+  Lemma norm_tail cs : forall pow, (forall c, In c cs -> F c) ->
+    minus_to_plusminus (strip_ws (replace_go pat_pm rep_pm 0
+        (concat (map (fun q => sep_plus ++ q) (model_parts fmt_prec pow cs)))))
+    = norm5 (combine (seq pow (length cs)) cs) false.
+  Proof.
+    induction cs as [|c cs IH]; intros pow HF; [reflexivity|].
+    assert (HF' : forall c, In c cs -> F c) by (intros d Hd; apply HF; right; exact Hd).
+    cbn [model_parts length seq combine normtext]. cbn [neqb n0 RNum].
+    destruct (Reqb c 0) eqn:Ec; [apply IH; exact HF'|].
+    assert (Hc : c <> 0) by (apply Reqb_false; exact Ec).
+    assert (Fc : F c) by (apply HF; left; reflexivity).
+    cbn [map concat andb]. rewrite (model_term_nm pow c Fc Hc).
+    destruct (nm5_split pow c Fc Hc) as [body [Eb [Pb Nb]]]. rewrite Eb.
+    pose proof (plain_no_plus _ Pb) as NoPlus. pose proof (plain_no_minus _ Pb) as NoMinus.
+    rewrite <- !app_assoc.
+    unfold sgn_str. destruct (Rltb c 0).
+    - cbn [app]. rewrite replace_sep_neg, replace_pass by exact NoPlus.
+      rewrite !strip_ws_app, !m2pm_app, (IH (S pow) HF').
+      rewrite (strip_ws_plain body Pb), (m2pm_plain body Pb). reflexivity.
+    - cbn [app]. destruct body as [|d body]; [contradiction|].
+      cbn [app]. rewrite replace_sep_pos by (intro X; apply NoMinus; left; exact X).
+      change (d :: body ++ ?t) with ((d :: body) ++ t).
+      rewrite replace_pass by exact NoPlus.
+      rewrite !strip_ws_app, !m2pm_app, (IH (S pow) HF').
+      rewrite (strip_ws_plain (d :: body) Pb), (m2pm_plain (d :: body) Pb). reflexivity.
+  Qed.
+
+  Lemma norm_whole cs : forall pow p1 ps, (forall c, In c cs -> F c) ->
+    model_parts fmt_prec pow cs = p1 :: ps ->
+    minus_to_plusminus (strip_ws (str_replace pat_pm rep_pm (join sep_plus (p1 :: ps))))
+    = norm5 (combine (seq pow (length cs)) cs) true.
+  Proof.
+    induction cs as [|c cs IH]; intros pow p1 ps HF Hp; [discriminate Hp|].
+    assert (HF' : forall c, In c cs -> F c) by (intros d Hd; apply HF; right; exact Hd).
+    cbn [model_parts] in Hp. cbn [length seq combine normtext]. cbn [neqb n0 RNum] in Hp.
+    destruct (Reqb c 0) eqn:Ec; [exact (IH (S pow) p1 ps HF' Hp)|].
+    assert (Hc : c <> 0) by (apply Reqb_false; exact Ec).
+    assert (Fc : F c) by (apply HF; left; reflexivity).
+    injection Hp as <- <-. rewrite join_cons. unfold str_replace.
+    rewrite (model_term_nm pow c Fc Hc).
+    destruct (nm5_split pow c Fc Hc) as [body [Eb [Pb Nb]]]. rewrite Eb.
+    pose proof (plain_no_plus _ Pb) as NoPlus.
+    assert (NoPlus2 : ~ In c_plus (sgn_str c ++ body)).
+    { intro X. apply in_app_or in X. destruct X as [X|X]; [|exact (NoPlus X)].
+      unfold sgn_str in X. destruct (Rltb c 0); [destruct X as [X|[]]; discriminate X|contradiction]. }
+    rewrite replace_pass by exact NoPlus2.
+    rewrite !strip_ws_app, !m2pm_app, (norm_tail cs (S pow) HF').
+    rewrite (strip_ws_plain body Pb), (m2pm_plain body Pb).
+    unfold sgn_str. destruct (Rltb c 0) eqn:En.
+    - assert (E0 : Rltb 0 c = false).
+      { apply Rltb_false. apply Rltb_true in En. lra. }
+      rewrite E0. cbn [andb]. rewrite <- !app_assoc. reflexivity.
+    - assert (E0 : Rltb 0 c = true).
+      { apply Rltb_true. apply Rltb_false in En. lra. }
+      rewrite E0. reflexivity.
+  Qed.
+
+  Lemma model_parts_nil cs : forall pow, model_parts fmt_prec pow cs = [] -> forall c, In c cs -> c = 0.
+  Proof.
+    induction cs as [|c cs IH]; intros pow H d Hd; [contradiction|].
+    cbn [model_parts] in H. cbn [neqb n0 RNum] in H. destruct (Reqb c 0) eqn:Ec; [|discriminate H].
+    destruct Hd as [<-|Hd]; [apply Reqb_true; exact Ec|exact (IH (S pow) H d Hd)].
+  Qed.
+
+  Lemma c17_model_string : forall coefs : list R,
+    (forall c, In c coefs -> F c) ->
+    (Z.of_nat (length coefs) <= 65536)%Z ->
+    exists p', parse_simple U (to_polynomial_string fmt_prec coefs) = Ok p'
+      /\ (forall k, Rabs (nth k (s_coefs p') 0 - nth k coefs 0) <= / 2 * / 10 ^ 5).
+  Proof.
+    intros coefs HF Hlen.
+    assert (Heps : 0 <= / 2 * / 10 ^ 5) by (pose proof (pow10_pos 5); apply Rmult_le_pos; [lra|left; apply Rinv_0_lt_compat; assumption]).
+    unfold to_polynomial_string.
+    destruct (model_parts fmt_prec 0 coefs) as [|p1 ps] eqn:Ep.
+    - pose proof (model_parts_nil coefs O Ep) as Z0.
+      destruct (parse_zero_text U U_ascii) as [p' [P1 [P2 _]]].
+      exists p'. split; [exact P1|]. intro k. rewrite P2.
+      destruct (nth_in_or_default k coefs 0) as [Hin|E]; [rewrite (Z0 _ Hin)|rewrite E];
+        rewrite Rminus_0_r, Rabs_R0; exact Heps.
+    - set (its := combine (seq 0 (length coefs)) coefs).
+      assert (Hok : all_ok fmt_prec FS5 None rd5 its).
+      { intros i c Hin _. apply num_ok5. apply HF. apply in_combine_r in Hin. exact Hin. }
+      assert (Hi : forall i c, In (i, c) its -> (Z.of_nat i <= 65535)%Z).
+      { intros i c Hin. apply in_combine_l in Hin. apply in_seq in Hin. lia. }
+      pose proof (norm_whole coefs O p1 ps HF Ep) as Hnorm. fold its in Hnorm.
+      destruct (parse_from_norm U U_ascii fmt_prec FS5 None rd5 c_x x_alpha x_nws _ its Hok Hi Hnorm)
+        as [p' [P1 [P2 _]]].
+      exists p'. split; [exact P1|]. intro k. rewrite P2. unfold its.
+      rewrite (sumat_enumerate rd5). cbn [Nat.leb]. rewrite Nat.sub_0_r.
+      apply readc'_near; [exact Heps|]. intro Hc.
+      destruct (nth_in_or_default k coefs 0) as [Hin|E]; [|contradiction].
+      apply num_ok5. apply HF. exact Hin.
+  Qed.
+End ModelString.
+
+(* ========================================================================== *)
+(** * The hypotheses are satisfiable: integers, printed exactly *)
+
+Lemma uclass_tab_ascii : forall c, (c < 128)%N -> u_alphabetic uclass_tab c = is_ascii_letter c.
+Proof.
+  intros c L.
+  pose proof (below128 (fun c => Bool.eqb (u_alphabetic uclass_tab c) (is_ascii_letter c))
+                ltac:(vm_compute; reflexivity) c L) as B.
+  apply eqb_prop in B. exact B.
+Qed.
+
+Lemma Int_part_IZR (n : Z) : Int_part (IZR n) = n.
+Proof.
+  unfold Int_part. rewrite <- (tech_up (IZR n) (n + 1)).
+  - lia.
+  - rewrite plus_IZR. lra.
+  - rewrite plus_IZR. lra.
+Qed.
+
+Definition F_int (x : R) : Prop := exists n : Z, x = IZR n.
+Definition int_fmt_short (x : R) : str :=
+  if Rltb x 0 then c_minus :: Zdigits (- Int_part x) else Zdigits (Int_part x).
+Definition int_fmt_prec (p : nat) (x : R) : str :=
+  (if Rltb x 0 then [c_minus] else []) ++ dec_point p (Z.abs (Int_part x) * 10 ^ Z.of_nat p).
+
+Lemma F_int_opp x : F_int x -> F_int (- x).
+Proof. intros [n ->]. exists (- n)%Z. rewrite opp_IZR. reflexivity. Qed.
+
+Lemma parse_dec_Zdigits n : (0 <= n)%Z -> @parse_dec R RNum (Zdigits n) = Some (IZR n).
+Proof.
+  intro H. destruct (Zdigits_spec n H) as [A [B C]].
+  rewrite parse_dec_unsigned; [|intro t; apply body_ok_not_minus, all_digits_body_ok, A|exact C].
+  rewrite pud_int by assumption. rewrite nofdec_R, B. cbn [powerRZ]. f_equal. ring.
+Qed.
+
+Lemma int_H1 x : F_int x -> short_shape x (int_fmt_short x).
+Proof.
+  intros [n ->]. unfold short_shape, int_fmt_short. rewrite Int_part_IZR.
+  destruct (Rltb (IZR n) 0) eqn:E.
+  - apply Rltb_true in E. apply lt_IZR in E. eexists. split; [reflexivity|].
+    apply all_digits_body_ok. apply Zdigits_spec. lia.
+  - apply Rltb_false in E. apply le_IZR in E. apply all_digits_body_ok. apply Zdigits_spec. lia.
+Qed.
+
+Lemma int_H2 x : F_int x -> @parse_dec R RNum (int_fmt_short x) = Some x.
+Proof.
+  intros [n ->]. unfold int_fmt_short. rewrite Int_part_IZR.
+  destruct (Rltb (IZR n) 0) eqn:E.
+  - apply Rltb_true in E. apply lt_IZR in E.
+    destruct (Zdigits_spec (- n) ltac:(lia)) as [A [B C]].
+    rewrite parse_dec_minus.
+    rewrite <- (parse_dec_unsigned (Zdigits (- n)));
+      [|intro t; apply body_ok_not_minus, all_digits_body_ok, A|exact C].
+    rewrite parse_dec_Zdigits by lia. cbn [option_map nneg RNum]. rewrite opp_IZR. f_equal. ring.
+  - apply Rltb_false in E. apply le_IZR in E. apply parse_dec_Zdigits. exact E.
+Qed.
+
+Lemma int_prec_spec : prec_spec F_int int_fmt_prec.
+Proof.
+  split.
+  - intros p x [n ->] Hneg. unfold int_fmt_prec.
+    replace (Rltb (IZR n) 0) with true by (symmetry; apply Rltb_true; exact Hneg).
+    replace (Rltb (- IZR n) 0) with false by (symmetry; apply Rltb_false; lra).
+    rewrite <- opp_IZR, !Int_part_IZR, Z.abs_opp. reflexivity.
+  - intros p x [n ->] Hpos. apply le_IZR in Hpos.
+    exists (Z.abs n * 10 ^ Z.of_nat p)%Z. split; [|split].
+    + apply Z.mul_nonneg_nonneg; [lia|apply Z.pow_nonneg; lia].
+    + rewrite mult_IZR, IZR_pow10, Z.abs_eq by exact Hpos.
+      replace (IZR n * 10 ^ p - IZR n * 10 ^ p) with 0 by ring. rewrite Rabs_R0. lra.
+    + unfold int_fmt_prec. rewrite Int_part_IZR.
+      replace (Rltb (IZR n) 0) with false by (symmetry; apply Rltb_false; apply IZR_le; exact Hpos).
+      reflexivity.
+Qed.
+
+(* ========================================================================== *)
+(** * Part F: Term and IntermediatePolynomial -- print, then parse_inter *)
+
+(* characters of one printed term: digits, '.', ASCII letters, '^', '-' *)
+Definition tch (c : N) : bool :=
+  numch c || is_ascii_letter c || N.eqb c c_caret || N.eqb c c_minus.
+
+Lemma letter_lt128 c : is_ascii_letter c = true -> (c < 128)%N.
+Proof.
+  unfold is_ascii_letter. rewrite orb_true_iff, !andb_true_iff, !N.leb_le. lia.
+Qed.
+
+Lemma tch_lt128 c : tch c = true -> (c < 128)%N.
+Proof.
+  unfold tch. rewrite !orb_true_iff. intros [[[H|H]|H]|H].
+  - apply numch_lt128; exact H.
+  - apply letter_lt128; exact H.
+  - apply N.eqb_eq in H. subst. reflexivity.
+  - apply N.eqb_eq in H. subst. reflexivity.
+Qed.
+
+Lemma tch_facts c : tch c = true ->
+  is_whitespace c = false /\ c <> c_plus /\ c <> c_at.
+Proof.
+  intro H. pose proof (tch_lt128 c H) as L.
+  pose proof (below128 (fun c => implb (tch c)
+     (negb (is_whitespace c) && negb (N.eqb c c_plus) && negb (N.eqb c c_at))) ltac:(vm_compute; reflexivity) c L) as B.
+  cbv beta in B. rewrite H in B. cbn [implb] in B.
+  apply andb_true_iff in B. destruct B as [B B3]. apply andb_true_iff in B. destruct B as [B1 B2].
+  repeat split; [apply negb_true_iff; exact B1| |]; intro E; subst c; discriminate.
+Qed.
+
+Lemma letter_facts2 c : is_ascii_letter c = true ->
+  is_ascii_digit c = false /\ c <> c_dot /\ c <> c_minus /\ c <> c_slash /\ c <> c_caret /\ c <> c_plus.
+Proof.
+  intro H. pose proof (letter_lt128 c H) as L.
+  pose proof (below128 (fun c => implb (is_ascii_letter c)
+     (negb (is_ascii_digit c) && negb (N.eqb c c_dot) && negb (N.eqb c c_minus) && negb (N.eqb c c_slash)
+      && negb (N.eqb c c_caret) && negb (N.eqb c c_plus))) ltac:(vm_compute; reflexivity) c L) as B.
+  cbv beta in B. rewrite H in B. cbn [implb] in B.
+  repeat (apply andb_true_iff in B; let X := fresh "B" in destruct B as [B X]).
+  repeat split; try (apply negb_true_iff; assumption); intro E; subst c; discriminate.
+Qed.
+
+Lemma numch_facts2 c : numch c = true -> c <> c_minus /\ c <> c_caret /\ c <> c_slash /\ c <> c_plus.
+Proof.
+  intro H. pose proof (numch_lt128 c H) as L.
+  pose proof (below128 (fun c => implb (numch c)
+     (negb (N.eqb c c_minus) && negb (N.eqb c c_caret) && negb (N.eqb c c_slash) && negb (N.eqb c c_plus)))
+     ltac:(vm_compute; reflexivity) c L) as B.
+  cbv beta in B. rewrite H in B. cbn [implb] in B.
+  repeat (apply andb_true_iff in B; let X := fresh "B" in destruct B as [B X]).
+  repeat split; intro E; subst c; discriminate.
+Qed.
+
+(* protect_minus leaves text without '-' and '^' alone and forgets its flag *)
+Definition nmc (s : str) : Prop := forall c, In c s -> c <> c_minus /\ c <> c_caret.
+
+Lemma pm_plain_text a : forall b s, nmc a -> a <> [] ->
+  protect_minus b (a ++ s) = a ++ protect_minus false s.
+Proof.
+  induction a as [|x a IH]; intros b s Hn Hne; [contradiction|].
+  destruct (Hn x (or_introl eq_refl)) as [X1 X2].
+  cbn [app protect_minus]. destruct (N.eqb_spec x c_minus) as [E|_]; [contradiction|].
+  f_equal. destruct (N.eqb_spec x c_caret) as [E|_]; [contradiction|].
+  destruct a as [|y a]; [reflexivity|].
+  apply IH; [|discriminate]. intros c Hc. apply Hn. right. exact Hc.
+Qed.
+
+Lemma body_ok_nmc s : body_ok s = true -> nmc s.
+Proof.
+  intros H c Hc. unfold body_ok in H. rewrite forallb_forall in H.
+  destruct (numch_facts2 c (H c Hc)) as [A [B _]]. split; assumption.
+Qed.
+
+Lemma pm_body a b s : body_ok a = true ->
+  protect_minus b (a ++ s) = a ++ protect_minus (match a with [] => b | _ => false end) s.
+Proof.
+  intro H. destruct a as [|x a]; [reflexivity|].
+  apply pm_plain_text; [apply body_ok_nmc; exact H|discriminate].
+Qed.
+
+Definition stops (rest : str) : Prop :=
+  match rest with [] => True | ch :: _ => is_ascii_letter ch = true end.
+
+Section InterRT.
+  Variable U : UClass.
+  Hypothesis U_num : forall c, (c < 128)%N -> u_numeric U c = is_ascii_digit c.
+  Variable fmt_prec : nat -> R -> str.
+  Variable fmt_short : R -> str.
+  Variable prec : option nat.
+  Variable rd : R -> R.               (* what a printed coefficient magnitude reads back as *)
+  Variable rde : R -> R.              (* what a printed exponent reads back as *)
+
+  Let fnum := fmt_num fmt_prec fmt_short prec.
+  Let fexp := fmt_exp fmt_prec fmt_short prec.
+  Notation fvars := (fmt_vars fmt_prec fmt_short prec).
+
+  Definition mag_ok (a : R) : Prop :=
+    body_ok (fnum a) = true /\ @parse_dec R RNum (fnum a) = Some (rd a).
+  (* "^" then an optionally signed decimal *)
+  Definition exp_ok (e : R) : Prop :=
+    exists sg b, fexp e = c_caret :: sg ++ b /\ (sg = [] \/ sg = [c_minus]) /\ body_ok b = true
+                 /\ @parse_dec R RNum (sg ++ b) = Some (rde e).
+
+  Definition letter_name (v : name) : Prop := exists ch, v = [ch] /\ is_ascii_letter ch = true.
+  Definition vars_ok (vs : list (name * R)) : Prop :=
+    forall v e, In (v, e) vs -> letter_name v /\ (e <> 1 -> exp_ok e).
+
+  Lemma vars_ok_tail x vs : vars_ok (x :: vs) -> vars_ok vs.
+  Proof. intros H v e Hin. apply H. right. exact Hin. Qed.
+
+  Lemma nneb_R (a b : R) : nneb a b = negb (Reqb a b).
+  Proof. reflexivity. Qed.
+
+  Lemma exp_ok_nonempty e sg b : body_ok b = true -> @parse_dec R RNum (sg ++ b) = Some (rde e) ->
+    (sg = [] \/ sg = [c_minus]) -> b <> [].
+  Proof.
+    intros Hb Hp Hs E. subst b. rewrite app_nil_r in Hp. destruct Hs as [->| ->]; discriminate Hp.
+  Qed.
+
+  (* ---- the characters of the printed variables ---- *)
+  Lemma fvars_tch vs : vars_ok vs -> forallb tch (fvars vs) = true.
+  Proof.
+    induction vs as [|[v e] vs IH]; intro H; [reflexivity|].
+    cbn [fmt_vars]. rewrite !forallb_app, (IH (vars_ok_tail _ _ H)), andb_true_r.
+    destruct (H v e (or_introl eq_refl)) as [[ch [-> Hl]] He].
+    apply andb_true_iff. split.
+    - cbn [forallb]. unfold tch. rewrite Hl, !orb_true_r. reflexivity.
+    - rewrite nneb_R; cbn [n1 RNum]. destruct (Reqb e 1) eqn:E1; [reflexivity|]. cbn [negb].
+      apply Reqb_false in E1. destruct (He E1) as [sg [b [Ef [Hs [Hb _]]]]].
+      fold fexp. rewrite Ef. cbn [forallb]. apply andb_true_iff. split; [reflexivity|].
+      rewrite forallb_app. apply andb_true_iff. split.
+      + destruct Hs as [->| ->]; reflexivity.
+      + unfold body_ok in Hb. rewrite forallb_forall in *. intros c Hc. unfold tch. rewrite (Hb c Hc). reflexivity.
+  Qed.
+
+  Lemma fvars_stops vs : vars_ok vs -> stops (fvars vs).
+  Proof.
+    destruct vs as [|[v e] vs]; intro H; [exact I|].
+    destruct (H v e (or_introl eq_refl)) as [[ch [-> Hl]] _]. exact Hl.
+  Qed.
+
+  (* ---- protect_minus on the printed variables ---- *)
+  Lemma pm_fvars vs : forall b s, vars_ok vs ->
+    protect_minus b (fvars vs ++ s) = fvars vs ++ protect_minus (match vs with [] => b | _ => false end) s.
+  Proof.
+    induction vs as [|[v e] vs IH]; intros b s H; [reflexivity|].
+    destruct (H v e (or_introl eq_refl)) as [[ch [-> Hl]] He].
+    destruct (letter_facts2 ch Hl) as [_ [_ [Lm [_ [Lc _]]]]].
+    cbn [fmt_vars]. rewrite <- !app_assoc. cbn [app protect_minus].
+    destruct (N.eqb_spec ch c_minus) as [X|_]; [contradiction|].
+    destruct (N.eqb_spec ch c_caret) as [X|_]; [contradiction|]. f_equal.
+    rewrite nneb_R; cbn [n1 RNum]. destruct (Reqb e 1) eqn:E1; cbn [negb app].
+    - rewrite (IH false s (vars_ok_tail _ _ H)). destruct vs; reflexivity.
+    - apply Reqb_false in E1. destruct (He E1) as [sg [bb [Ef [Hs [Hb Hp]]]]].
+      pose proof (exp_ok_nonempty e sg bb Hb Hp Hs) as Hne.
+      fold fexp. rewrite Ef. cbn [app protect_minus].
+      replace (N.eqb c_caret c_minus) with false by reflexivity. rewrite N.eqb_refl. f_equal.
+      rewrite <- app_assoc.
+      assert (Tail : forall b0, protect_minus b0 (bb ++ fvars vs ++ s) = bb ++ fvars vs ++ protect_minus false s).
+      { intro b0. rewrite pm_body by exact Hb. destruct bb as [|x bb]; [contradiction|].
+        rewrite (IH false s (vars_ok_tail _ _ H)). destruct vs; reflexivity. }
+      destruct Hs as [->| ->]; cbn [app].
+      + apply Tail.
+      + cbn [protect_minus]. rewrite N.eqb_refl. cbn [app]. f_equal. apply Tail.
+  Qed.
+
+  (* ---- scanning ---- *)
+  Lemma scan_coeff_body b : forall first rest, body_ok b = true -> stops rest ->
+    scan_coeff U first (b ++ rest) = (b, rest).
+  Proof.
+    induction b as [|x b IH]; intros first rest Hb Hs.
+    - destruct rest as [|ch r]; [reflexivity|]. cbn [app scan_coeff].
+      cbn [stops] in Hs. destruct (letter_facts2 ch Hs) as [Ld [Ldot [Lm [Lsl _]]]].
+      rewrite (U_num ch (letter_lt128 ch Hs)), Ld.
+      destruct (N.eqb_spec ch c_dot); [contradiction|]. destruct (N.eqb_spec ch c_minus); [contradiction|].
+      destruct (N.eqb_spec ch c_slash); [contradiction|]. rewrite andb_false_r. reflexivity.
+    - cbn [body_ok forallb] in Hb. apply andb_true_iff in Hb. destruct Hb as [Hx Hb].
+      cbn [app scan_coeff].
+      assert (A : u_numeric U x || N.eqb x c_dot = true).
+      { rewrite (U_num x (numch_lt128 x Hx)). exact Hx. }
+      rewrite A. cbn [orb]. rewrite (IH false rest Hb Hs). reflexivity.
+  Qed.
+
+  Lemma scan_coeff_signed sg b rest : (sg = [] \/ sg = [c_minus]) -> body_ok b = true -> stops rest ->
+    scan_coeff U true (sg ++ b ++ rest) = (sg ++ b, rest).
+  Proof.
+    intros [->| ->] Hb Hs; [cbn [app]; apply scan_coeff_body; assumption|].
+    cbn [app scan_coeff]. rewrite N.eqb_refl, !orb_true_r. cbn [orb].
+    rewrite (scan_coeff_body b false rest Hb Hs). reflexivity.
+  Qed.
+
+  Lemma scan_pow_body b : forall rest, body_ok b = true -> stops rest -> scan_pow (b ++ rest) = (b, rest).
+  Proof.
+    induction b as [|x b IH]; intros rest Hb Hs.
+    - destruct rest as [|ch r]; [reflexivity|]. cbn [app scan_pow].
+      cbn [stops] in Hs. destruct (letter_facts2 ch Hs) as [Ld [Ldot [Lm [Lsl _]]]]. rewrite Ld.
+      destruct (N.eqb_spec ch c_dot); [contradiction|]. destruct (N.eqb_spec ch c_minus); [contradiction|].
+      destruct (N.eqb_spec ch c_slash); [contradiction|]. reflexivity.
+    - cbn [body_ok forallb] in Hb. apply andb_true_iff in Hb. destruct Hb as [Hx Hb].
+      cbn [app scan_pow]. unfold numch in Hx. rewrite Hx. cbn [orb]. rewrite (IH rest Hb Hs). reflexivity.
+  Qed.
+
+  Lemma scan_pow_signed sg b rest : (sg = [] \/ sg = [c_minus]) -> body_ok b = true -> stops rest ->
+    scan_pow (sg ++ b ++ rest) = (sg ++ b, rest).
+  Proof.
+    intros [->| ->] Hb Hs; [cbn [app]; apply scan_pow_body; assumption|].
+    cbn [app scan_pow]. rewrite N.eqb_refl, !orb_true_r.
+    rewrite (scan_pow_body b rest Hb Hs). reflexivity.
+  Qed.
+
+  Lemma no_slash sg b : (sg = [] \/ sg = [c_minus]) -> body_ok b = true -> contains_char c_slash (sg ++ b) = false.
+  Proof.
+    intros Hs Hb. unfold contains_char. apply not_true_is_false. intro H.
+    apply existsb_exists in H. destruct H as [x [Hx E]]. apply N.eqb_eq in E. subst x.
+    apply in_app_or in Hx. destruct Hx as [Hx|Hx].
+    - destruct Hs as [->| ->]; [contradiction|]. destruct Hx as [X|[]]. discriminate X.
+    - unfold body_ok in Hb. rewrite forallb_forall in Hb. destruct (numch_facts2 _ (Hb _ Hx)) as [_ [_ [X _]]].
+      apply X. reflexivity.
+  Qed.
+
+  (* the exponents as they read back *)
+  Definition rdx (e : R) : R := if Reqb e 1 then 1 else rde e.
+  Definition read_vars (vs : list (name * R)) : list (name * R) := map (fun ve => (fst ve, rdx (snd ve))) vs.
+
+  Lemma scan_vars_spec vs : forall fuel acc, vars_ok vs -> (length (fvars vs) <= fuel)%nat ->
+    @scan_vars R RNum fuel (fvars vs) acc = Ok (rev acc ++ read_vars vs).
+  Proof.
+    induction vs as [|[v e] vs IH]; intros fuel acc H Hf.
+    - cbn [fmt_vars read_vars map]. rewrite app_nil_r. destruct fuel; reflexivity.
+    - destruct (H v e (or_introl eq_refl)) as [[ch [-> Hl]] He].
+      pose proof (vars_ok_tail _ _ H) as H'.
+      cbn [fmt_vars] in *. cbn [app] in *.
+      destruct fuel as [|fuel]; [cbn [length] in Hf; lia|].
+      cbn [scan_vars]. rewrite Hl. cbn [read_vars map fst snd]. unfold rdx at 1.
+      rewrite nneb_R in *; cbn [n1 RNum] in *. destruct (Reqb e 1) eqn:E1; cbn [negb app] in *.
+      + (* exponent 1 is not printed: the next character is the next variable, or the end *)
+        destruct (fvars vs) as [|c2 s''] eqn:Ev.
+        * destruct vs as [|[v2 e2] vs2]; [reflexivity|].
+          exfalso. destruct (H' v2 e2 (or_introl eq_refl)) as [[ch2 [-> _]] _].
+          cbn [fmt_vars] in Ev. discriminate Ev.
+        * pose proof (fvars_stops vs H') as St. rewrite Ev in St. cbn [stops] in St.
+          destruct (letter_facts2 c2 St) as [_ [_ [_ [_ [Lc _]]]]].
+          destruct (N.eqb_spec c2 c_caret) as [X|_]; [contradiction|].
+          rewrite (IH fuel (([ch], 1) :: acc) H').
+          -- cbn [rev]. rewrite <- app_assoc. reflexivity.
+          -- cbn [length] in *. lia.
+      + apply Reqb_false in E1. destruct (He E1) as [sg [b [Ef [Hs [Hb Hp]]]]].
+        unfold fexp in Ef. rewrite Ef in *. cbn [app] in *. rewrite N.eqb_refl.
+        rewrite <- app_assoc. rewrite (scan_pow_signed sg b (fvars vs) Hs Hb (fvars_stops vs H')).
+        unfold inter_pow. rewrite (no_slash sg b Hs Hb), Hp.
+        rewrite (IH fuel (([ch], rde e) :: acc) H').
+        * cbn [rev]. rewrite <- app_assoc. reflexivity.
+        * cbn [length] in Hf. rewrite !app_length in Hf. lia.
+  Qed.
+End InterRT.
